@@ -135,6 +135,19 @@ module Nat =
                | O -> n0
                | S m' -> S (max n' m'))
 
+  (** val even : nat -> bool **)
+
+  let rec even = function
+  | O -> true
+  | S n1 -> (match n1 with
+             | O -> false
+             | S n' -> even n')
+
+  (** val odd : nat -> bool **)
+
+  let odd n0 =
+    negb (even n0)
+
   (** val divmod : nat -> nat -> nat -> nat -> nat * nat **)
 
   let rec divmod x y q u =
@@ -1343,6 +1356,325 @@ let classify c =
                       O))))))))))))))))))))))))))))))))))))))))))))))))))))))))
              else None) }
 
+(** val iter_app : nat -> term -> term -> term **)
+
+let rec iter_app n0 f x =
+  match n0 with
+  | O -> x
+  | S k -> App (f, (iter_app k f x))
+
+(** val church : nat -> term **)
+
+let church n0 =
+  Abs (Abs (iter_app n0 (Var (S (S O))) (Var (S O))))
+
+(** val scott : nat -> term **)
+
+let rec scott = function
+| O -> Abs (Abs (Var (S (S O))))
+| S k -> Abs (Abs (App ((Var (S O)), (scott k))))
+
+(** val body2 : term -> term **)
+
+let body2 t = match t with
+| Abs t0 -> (match t0 with
+             | Abs b -> b
+             | _ -> t)
+| _ -> t
+
+(** val parigot : nat -> term **)
+
+let rec parigot = function
+| O -> Abs (Abs (Var (S O)))
+| S k ->
+  Abs (Abs (App ((App ((Var (S (S O))), (parigot k))), (body2 (parigot k)))))
+
+(** val stumpfu : nat -> term **)
+
+let rec stumpfu = function
+| O -> Abs (Abs (Var (S O)))
+| S k ->
+  Abs (Abs (App ((App ((Var (S (S O))), (church (S k)))), (stumpfu k))))
+
+(** val bits_term : bool list -> term **)
+
+let rec bits_term = function
+| [] -> Var (S (S (S O)))
+| b :: r0 -> App ((Var (if b then S O else S (S O))), (bits_term r0))
+
+(** val bits_of : nat -> nat -> bool list **)
+
+let rec bits_of fuel n0 =
+  match fuel with
+  | O -> []
+  | S f ->
+    if Nat.eqb n0 O
+    then []
+    else (Nat.odd n0) :: (bits_of f (Nat.div n0 (S (S O))))
+
+(** val binary : nat -> term **)
+
+let binary n0 =
+  Abs (Abs (Abs (bits_term (bits_of n0 n0))))
+
+(** val tru_t : term **)
+
+let tru_t =
+  Abs (Abs (Var (S (S O))))
+
+(** val fls_t : term **)
+
+let fls_t =
+  Abs (Abs (Var (S O)))
+
+(** val bool_t : bool -> term **)
+
+let bool_t = function
+| true -> tru_t
+| false -> fls_t
+
+(** val pair_t : term -> term -> term **)
+
+let pair_t a b =
+  Abs (App ((App ((Var (S O)), a)), b))
+
+(** val none_t : term **)
+
+let none_t =
+  Abs (Abs (Var (S (S O))))
+
+(** val some_t : term -> term **)
+
+let some_t x =
+  Abs (Abs (App ((Var (S O)), x)))
+
+(** val ok_t : term -> term **)
+
+let ok_t x =
+  Abs (Abs (App ((Var (S (S O))), x)))
+
+(** val err_t : term -> term **)
+
+let err_t x =
+  Abs (Abs (App ((Var (S O)), x)))
+
+(** val tuple_t : term list -> term **)
+
+let tuple_t xs =
+  Abs (fold_left (fun x x0 -> App (x, x0)) xs (Var (S O)))
+
+(** val pair_list : term list -> term **)
+
+let rec pair_list = function
+| [] -> Abs (Abs (Var (S O)))
+| x :: r0 -> Abs (App ((App ((Var (S O)), x)), (pair_list r0)))
+
+(** val church_list_body : term list -> term **)
+
+let rec church_list_body = function
+| [] -> Var (S (S O))
+| x :: r0 -> App ((App ((Var (S O)), x)), (church_list_body r0))
+
+(** val church_list : term list -> term **)
+
+let church_list xs =
+  Abs (Abs (church_list_body xs))
+
+(** val scott_list : term list -> term **)
+
+let rec scott_list = function
+| [] -> Abs (Abs (Var (S (S O))))
+| x :: r0 -> Abs (Abs (App ((App ((Var (S O)), x)), (scott_list r0))))
+
+(** val parigot_list : term list -> term **)
+
+let rec parigot_list = function
+| [] -> Abs (Abs (Var (S (S O))))
+| x :: r0 ->
+  Abs (Abs (App ((App ((App ((Var (S O)), x)), (parigot_list r0))),
+    (body2 (parigot_list r0)))))
+
+(** val count_apps : nat -> term -> nat option **)
+
+let rec count_apps f = function
+| Var n0 ->
+  (match n0 with
+   | O -> None
+   | S n1 -> (match n1 with
+              | O -> Some O
+              | S _ -> None))
+| Abs _ -> None
+| App (l, r0) ->
+  (match l with
+   | Var g ->
+     if Nat.eqb g f then option_map (fun x -> S x) (count_apps f r0) else None
+   | _ -> None)
+
+(** val dec_church : term -> nat option **)
+
+let dec_church = function
+| Abs t0 -> (match t0 with
+             | Abs b -> count_apps (S (S O)) b
+             | _ -> None)
+| _ -> None
+
+(** val dec_scott : nat -> term -> nat option **)
+
+let rec dec_scott fuel t =
+  match fuel with
+  | O -> None
+  | S f ->
+    (match t with
+     | Abs t0 ->
+       (match t0 with
+        | Abs t1 ->
+          (match t1 with
+           | Var n0 ->
+             (match n0 with
+              | O -> None
+              | S n1 ->
+                (match n1 with
+                 | O -> None
+                 | S n2 -> (match n2 with
+                            | O -> Some O
+                            | S _ -> None)))
+           | Abs _ -> None
+           | App (l, p) ->
+             (match l with
+              | Var n0 ->
+                (match n0 with
+                 | O -> None
+                 | S n1 ->
+                   (match n1 with
+                    | O -> option_map (fun x -> S x) (dec_scott f p)
+                    | S _ -> None))
+              | _ -> None))
+        | _ -> None)
+     | _ -> None)
+
+(** val dec_parigot : nat -> term -> nat option **)
+
+let rec dec_parigot fuel t =
+  match fuel with
+  | O -> None
+  | S f ->
+    (match t with
+     | Abs t0 ->
+       (match t0 with
+        | Abs t1 ->
+          (match t1 with
+           | Var n0 ->
+             (match n0 with
+              | O -> None
+              | S n1 -> (match n1 with
+                         | O -> Some O
+                         | S _ -> None))
+           | Abs _ -> None
+           | App (l, _) ->
+             (match l with
+              | App (l0, p) ->
+                (match l0 with
+                 | Var n0 ->
+                   (match n0 with
+                    | O -> None
+                    | S n1 ->
+                      (match n1 with
+                       | O -> None
+                       | S n2 ->
+                         (match n2 with
+                          | O -> option_map (fun x -> S x) (dec_parigot f p)
+                          | S _ -> None)))
+                 | _ -> None)
+              | _ -> None))
+        | _ -> None)
+     | _ -> None)
+
+(** val dec_stumpfu : nat -> term -> nat option **)
+
+let rec dec_stumpfu fuel t =
+  match fuel with
+  | O -> None
+  | S f ->
+    (match t with
+     | Abs t0 ->
+       (match t0 with
+        | Abs t1 ->
+          (match t1 with
+           | Var n0 ->
+             (match n0 with
+              | O -> None
+              | S n1 -> (match n1 with
+                         | O -> Some O
+                         | S _ -> None))
+           | Abs _ -> None
+           | App (l, p) ->
+             (match l with
+              | App (l0, c) ->
+                (match l0 with
+                 | Var n0 ->
+                   (match n0 with
+                    | O -> None
+                    | S n1 ->
+                      (match n1 with
+                       | O -> None
+                       | S n2 ->
+                         (match n2 with
+                          | O ->
+                            (match dec_church c with
+                             | Some a ->
+                               (match dec_stumpfu f p with
+                                | Some b ->
+                                  if Nat.eqb a (S b) then Some a else None
+                                | None -> None)
+                             | None -> None)
+                          | S _ -> None)))
+                 | _ -> None)
+              | _ -> None))
+        | _ -> None)
+     | _ -> None)
+
+(** val dec_bits : term -> nat option **)
+
+let rec dec_bits = function
+| Var n0 ->
+  (match n0 with
+   | O -> None
+   | S n1 ->
+     (match n1 with
+      | O -> None
+      | S n2 ->
+        (match n2 with
+         | O -> None
+         | S n3 -> (match n3 with
+                    | O -> Some O
+                    | S _ -> None))))
+| Abs _ -> None
+| App (l, r0) ->
+  (match l with
+   | Var n0 ->
+     (match n0 with
+      | O -> None
+      | S n1 ->
+        (match n1 with
+         | O ->
+           option_map (fun v -> add (mul (S (S O)) v) (S O)) (dec_bits r0)
+         | S n2 ->
+           (match n2 with
+            | O -> option_map (fun v -> mul (S (S O)) v) (dec_bits r0)
+            | S _ -> None)))
+   | _ -> None)
+
+(** val dec_binary : term -> nat option **)
+
+let dec_binary = function
+| Abs t0 ->
+  (match t0 with
+   | Abs t1 -> (match t1 with
+                | Abs b -> dec_bits b
+                | _ -> None)
+   | _ -> None)
+| _ -> None
+
 type term_error =
 | NotVar
 | NotAbs
@@ -2162,3 +2494,2340 @@ let rec show_precedence_dbr lambda t ctx =
 
 let debug lambda t =
   show_precedence_dbr lambda t O
+
+(** val repeat_fn : nat -> (term -> term) -> term -> term **)
+
+let rec repeat_fn n0 f x =
+  match n0 with
+  | O -> x
+  | S k -> repeat_fn k f (f x)
+
+(** val into_church : nat -> term **)
+
+let into_church n0 =
+  abs_macro (S (S O))
+    (repeat_fn n0 (fun ret0 -> app_c (Var (S (S O))) ret0) (Var (S O)))
+
+(** val into_scott : nat -> term **)
+
+let into_scott n0 =
+  repeat_fn n0 (fun ret0 -> abs_macro (S (S O)) (app_c (Var (S O)) ret0))
+    (abs_macro (S (S O)) (Var (S (S O))))
+
+(** val unabs2 : term -> term **)
+
+let unabs2 t =
+  match unabs t with
+  | Inl _ -> t
+  | Inr r0 -> (match unabs r0 with
+               | Inl _ -> t
+               | Inr b -> b)
+
+(** val into_parigot : nat -> term **)
+
+let into_parigot n0 =
+  repeat_fn n0 (fun ret0 ->
+    abs_macro (S (S O))
+      (app_macro (Var (S (S O))) (ret0 :: ((unabs2 ret0) :: []))))
+    (abs_macro (S (S O)) (Var (S O)))
+
+(** val into_stumpfu_from : nat -> nat -> term -> term **)
+
+let rec into_stumpfu_from k count ret0 =
+  match count with
+  | O -> ret0
+  | S c ->
+    into_stumpfu_from (S k) c
+      (abs_macro (S (S O))
+        (app_macro (Var (S (S O))) ((into_church k) :: (ret0 :: []))))
+
+(** val into_stumpfu : nat -> term **)
+
+let into_stumpfu n0 =
+  into_stumpfu_from (S O) n0 (abs_macro (S (S O)) (Var (S O)))
+
+(** val binstr_fuel : nat -> nat -> bool list -> bool list **)
+
+let rec binstr_fuel fuel n0 acc =
+  match fuel with
+  | O -> acc
+  | S f ->
+    if Nat.eqb n0 O
+    then acc
+    else binstr_fuel f (Nat.div n0 (S (S O))) ((Nat.odd n0) :: acc)
+
+(** val binstr : nat -> bool list **)
+
+let binstr n0 =
+  binstr_fuel n0 n0 []
+
+(** val into_binary : nat -> term **)
+
+let into_binary n0 =
+  let ret0 =
+    if Nat.eqb n0 O
+    then Var (S (S (S O)))
+    else fold_left (fun ret0 bit ->
+           if bit then app_c (Var (S O)) ret0 else app_c (Var (S (S O))) ret0)
+           (binstr n0) (Var (S (S (S O))))
+  in
+  abs_macro (S (S (S O))) ret0
+
+type encoding =
+| Church
+| Scott
+| Parigot
+| StumpFu
+| Binary
+
+(** val tuple_macro : term -> term list -> term **)
+
+let tuple_macro first next =
+  abs_c (fold_left app_c next (app_c (Var (S O)) first))
+
+(** val pi_macro : nat -> nat -> term **)
+
+let pi_macro i n0 =
+  abs_c (app_c (Var (S O)) (repeat_fn n0 abs_c (Var (sub (add n0 (S O)) i))))
+
+(** val into_signed : bool -> nat -> encoding -> term option **)
+
+let into_signed positive0 modulus e =
+  let numeral =
+    match e with
+    | Church -> Some (into_church modulus)
+    | Scott -> Some (into_scott modulus)
+    | Parigot -> Some (into_parigot modulus)
+    | StumpFu -> Some (into_stumpfu modulus)
+    | Binary -> None
+  in
+  (match numeral with
+   | Some numeral0 ->
+     let zero =
+       match e with
+       | Scott -> abs_macro (S (S O)) (Var (S (S O)))
+       | _ -> abs_macro (S (S O)) (Var (S O))
+     in
+     Some
+     (if positive0
+      then tuple_macro numeral0 (zero :: [])
+      else tuple_macro zero (numeral0 :: []))
+   | None -> None)
+
+(** val into_pair : term -> term -> term **)
+
+let into_pair a b =
+  abs_c (app_macro (Var (S O)) (a :: (b :: [])))
+
+(** val into_option : term option -> term **)
+
+let into_option = function
+| Some v -> abs_macro (S (S O)) (app_c (Var (S O)) v)
+| None -> abs_macro (S (S O)) (Var (S (S O)))
+
+(** val into_result : (term, term) sum -> term **)
+
+let into_result = function
+| Inl ok -> abs_macro (S (S O)) (app_c (Var (S (S O))) ok)
+| Inr err -> abs_macro (S (S O)) (app_c (Var (S O)) err)
+
+(** val into_pair_list : term list -> term **)
+
+let into_pair_list xs =
+  fold_left (fun ret0 t -> abs_c (app_macro (Var (S O)) (t :: (ret0 :: []))))
+    (rev xs) (abs_macro (S (S O)) (Var (S O)))
+
+(** val into_church_list : term list -> term **)
+
+let into_church_list xs =
+  abs_macro (S (S O))
+    (fold_left (fun ret0 t -> app_macro (Var (S O)) (t :: (ret0 :: [])))
+      (rev xs) (Var (S (S O))))
+
+(** val into_scott_list : term list -> term **)
+
+let into_scott_list xs =
+  fold_left (fun ret0 t ->
+    abs_macro (S (S O)) (app_macro (Var (S O)) (t :: (ret0 :: [])))) 
+    (rev xs) (abs_macro (S (S O)) (Var (S (S O))))
+
+(** val into_parigot_list : term list -> term **)
+
+let into_parigot_list xs =
+  fold_left (fun ret0 t ->
+    abs_macro (S (S O))
+      (app_macro (Var (S O)) (t :: (ret0 :: ((unabs2 ret0) :: [])))))
+    (rev xs) (abs_macro (S (S O)) (Var (S (S O))))
+
+(** val lc_combinators_I : term **)
+
+let lc_combinators_I =
+  Abs (Var (S O))
+
+(** val lc_combinators_K : term **)
+
+let lc_combinators_K =
+  Abs (Abs (Var (S (S O))))
+
+(** val lc_combinators_S : term **)
+
+let lc_combinators_S =
+  Abs (Abs (Abs (App ((App ((Var (S (S (S O)))), (Var (S O)))), (App ((Var (S
+    (S O))), (Var (S O))))))))
+
+(** val lc_combinators_i : term **)
+
+let lc_combinators_i =
+  Abs (App ((App ((Var (S O)), (Abs (Abs (Abs (App ((App ((Var (S (S (S
+    O)))), (Var (S O)))), (App ((Var (S (S O))), (Var (S O))))))))))), (Abs
+    (Abs (Var (S (S O)))))))
+
+(** val lc_combinators_B : term **)
+
+let lc_combinators_B =
+  Abs (Abs (Abs (App ((Var (S (S (S O)))), (App ((Var (S (S O))), (Var (S
+    O))))))))
+
+(** val lc_combinators_C : term **)
+
+let lc_combinators_C =
+  Abs (Abs (Abs (App ((App ((Var (S (S (S O)))), (Var (S O)))), (Var (S (S
+    O)))))))
+
+(** val lc_combinators_W : term **)
+
+let lc_combinators_W =
+  Abs (Abs (App ((App ((Var (S (S O))), (Var (S O)))), (Var (S O)))))
+
+(** val lc_combinators_o : term **)
+
+let lc_combinators_o =
+  Abs (App ((Var (S O)), (Var (S O))))
+
+(** val lc_combinators_O : term **)
+
+let lc_combinators_O =
+  App ((Abs (App ((Var (S O)), (Var (S O))))), (Abs (App ((Var (S O)), (Var
+    (S O))))))
+
+(** val lc_combinators_Y : term **)
+
+let lc_combinators_Y =
+  Abs (App ((Abs (App ((Var (S (S O))), (App ((Var (S O)), (Var (S O))))))),
+    (Abs (App ((Var (S (S O))), (App ((Var (S O)), (Var (S O)))))))))
+
+(** val lc_combinators_Z : term **)
+
+let lc_combinators_Z =
+  Abs (App ((Abs (App ((Var (S (S O))), (Abs (App ((App ((Var (S (S O))),
+    (Var (S (S O))))), (Var (S O)))))))), (Abs (App ((Var (S (S O))), (Abs
+    (App ((App ((Var (S (S O))), (Var (S (S O))))), (Var (S O))))))))))
+
+(** val lc_combinators_R : term **)
+
+let lc_combinators_R =
+  Abs (Abs (App ((Var (S O)), (Var (S (S O))))))
+
+(** val lc_combinators_T : term **)
+
+let lc_combinators_T =
+  App ((Abs (Abs (App ((Var (S O)), (App ((App ((Var (S (S O))), (Var (S (S
+    O))))), (Var (S O)))))))), (Abs (Abs (App ((Var (S O)), (App ((App ((Var
+    (S (S O))), (Var (S (S O))))), (Var (S O)))))))))
+
+(** val lc_boolean_tru : term **)
+
+let lc_boolean_tru =
+  Abs (Abs (Var (S (S O))))
+
+(** val lc_boolean_fls : term **)
+
+let lc_boolean_fls =
+  Abs (Abs (Var (S O)))
+
+(** val lc_boolean_and : term **)
+
+let lc_boolean_and =
+  Abs (Abs (App ((App ((Var (S (S O))), (Var (S O)))), (Var (S (S O))))))
+
+(** val lc_boolean_or : term **)
+
+let lc_boolean_or =
+  Abs (Abs (App ((App ((Var (S (S O))), (Var (S (S O))))), (Var (S O)))))
+
+(** val lc_boolean_not : term **)
+
+let lc_boolean_not =
+  Abs (App ((App ((Var (S O)), (Abs (Abs (Var (S O)))))), (Abs (Abs (Var (S
+    (S O)))))))
+
+(** val lc_boolean_xor : term **)
+
+let lc_boolean_xor =
+  Abs (Abs (App ((App ((Var (S (S O))), (App ((Abs (App ((App ((Var (S O)),
+    (Abs (Abs (Var (S O)))))), (Abs (Abs (Var (S (S O)))))))), (Var (S
+    O)))))), (Var (S O)))))
+
+(** val lc_boolean_nor : term **)
+
+let lc_boolean_nor =
+  Abs (Abs (App ((App ((App ((App ((Var (S (S O))), (Var (S (S O))))), (Var
+    (S O)))), (Abs (Abs (Var (S O)))))), (Abs (Abs (Var (S (S O))))))))
+
+(** val lc_boolean_xnor : term **)
+
+let lc_boolean_xnor =
+  Abs (Abs (App ((App ((Var (S (S O))), (Var (S O)))), (App ((Abs (App ((App
+    ((Var (S O)), (Abs (Abs (Var (S O)))))), (Abs (Abs (Var (S (S O)))))))),
+    (Var (S O)))))))
+
+(** val lc_boolean_nand : term **)
+
+let lc_boolean_nand =
+  Abs (Abs (App ((App ((App ((App ((Var (S (S O))), (Var (S O)))), (Var (S (S
+    O))))), (Abs (Abs (Var (S O)))))), (Abs (Abs (Var (S (S O))))))))
+
+(** val lc_boolean_if_else : term **)
+
+let lc_boolean_if_else =
+  Abs (Abs (Abs (App ((App ((Var (S (S (S O)))), (Var (S (S O))))), (Var (S
+    O))))))
+
+(** val lc_boolean_imply : term **)
+
+let lc_boolean_imply =
+  Abs (Abs (App ((App ((Abs (Abs (App ((App ((Var (S (S O))), (Var (S (S
+    O))))), (Var (S O)))))), (App ((Abs (App ((App ((Var (S O)), (Abs (Abs
+    (Var (S O)))))), (Abs (Abs (Var (S (S O)))))))), (Var (S (S O))))))),
+    (Var (S O)))))
+
+(** val lc_pair_pair : term **)
+
+let lc_pair_pair =
+  Abs (Abs (Abs (App ((App ((Var (S O)), (Var (S (S (S O)))))), (Var (S (S
+    O)))))))
+
+(** val lc_pair_fst : term **)
+
+let lc_pair_fst =
+  Abs (App ((Var (S O)), (Abs (Abs (Var (S (S O)))))))
+
+(** val lc_pair_snd : term **)
+
+let lc_pair_snd =
+  Abs (App ((Var (S O)), (Abs (Abs (Var (S O))))))
+
+(** val lc_pair_uncurry : term **)
+
+let lc_pair_uncurry =
+  Abs (Abs (App ((App ((Var (S (S O))), (App ((Abs (App ((Var (S O)), (Abs
+    (Abs (Var (S (S O)))))))), (Var (S O)))))), (App ((Abs (App ((Var (S O)),
+    (Abs (Abs (Var (S O))))))), (Var (S O)))))))
+
+(** val lc_pair_curry : term **)
+
+let lc_pair_curry =
+  Abs (Abs (Abs (App ((Var (S (S (S O)))), (App ((App ((Abs (Abs (Abs (App
+    ((App ((Var (S O)), (Var (S (S (S O)))))), (Var (S (S O)))))))), (Var (S
+    (S O))))), (Var (S O))))))))
+
+(** val lc_pair_swap : term **)
+
+let lc_pair_swap =
+  Abs (App ((App ((Abs (Abs (Abs (App ((App ((Var (S O)), (Var (S (S (S
+    O)))))), (Var (S (S O)))))))), (App ((Abs (App ((Var (S O)), (Abs (Abs
+    (Var (S O))))))), (Var (S O)))))), (App ((Abs (App ((Var (S O)), (Abs
+    (Abs (Var (S (S O)))))))), (Var (S O))))))
+
+(** val lc_option_none : term **)
+
+let lc_option_none =
+  Abs (Abs (Var (S (S O))))
+
+(** val lc_option_some : term **)
+
+let lc_option_some =
+  Abs (Abs (Abs (App ((Var (S O)), (Var (S (S (S O))))))))
+
+(** val lc_option_is_none : term **)
+
+let lc_option_is_none =
+  Abs (App ((App ((Var (S O)), (Abs (Abs (Var (S (S O))))))), (Abs (Abs (Abs
+    (Var (S O)))))))
+
+(** val lc_option_is_some : term **)
+
+let lc_option_is_some =
+  Abs (App ((App ((Var (S O)), (Abs (Abs (Var (S O)))))), (Abs (Abs (Abs (Var
+    (S (S O))))))))
+
+(** val lc_option_map : term **)
+
+let lc_option_map =
+  Abs (Abs (App ((App ((Var (S O)), (Abs (Abs (Var (S (S O))))))), (Abs (App
+    ((Abs (Abs (Abs (App ((Var (S O)), (Var (S (S (S O))))))))), (App ((Var
+    (S (S (S O)))), (Var (S O))))))))))
+
+(** val lc_option_map_or : term **)
+
+let lc_option_map_or =
+  Abs (Abs (Abs (App ((App ((Var (S O)), (Var (S (S (S O)))))), (Var (S (S
+    O)))))))
+
+(** val lc_option_unwrap_or : term **)
+
+let lc_option_unwrap_or =
+  Abs (Abs (App ((App ((Var (S O)), (Var (S (S O))))), (Abs (Var (S O))))))
+
+(** val lc_option_and_then : term **)
+
+let lc_option_and_then =
+  Abs (Abs (App ((App ((Var (S (S O))), (Abs (Abs (Var (S (S O))))))), (Var
+    (S O)))))
+
+(** val lc_result_ok : term **)
+
+let lc_result_ok =
+  Abs (Abs (Abs (App ((Var (S (S O))), (Var (S (S (S O))))))))
+
+(** val lc_result_err : term **)
+
+let lc_result_err =
+  Abs (Abs (Abs (App ((Var (S O)), (Var (S (S (S O))))))))
+
+(** val lc_result_is_ok : term **)
+
+let lc_result_is_ok =
+  Abs (App ((App ((Var (S O)), (Abs (Abs (Abs (Var (S (S O)))))))), (Abs (Abs
+    (Abs (Var (S O)))))))
+
+(** val lc_result_is_err : term **)
+
+let lc_result_is_err =
+  Abs (App ((App ((Var (S O)), (Abs (Abs (Abs (Var (S O))))))), (Abs (Abs
+    (Abs (Var (S (S O))))))))
+
+(** val lc_result_option_ok : term **)
+
+let lc_result_option_ok =
+  Abs (App ((App ((Var (S O)), (Abs (Abs (Abs (App ((Var (S O)), (Var (S (S
+    (S O))))))))))), (Abs (Abs (Abs (Var (S (S O))))))))
+
+(** val lc_result_option_err : term **)
+
+let lc_result_option_err =
+  Abs (App ((App ((Var (S O)), (Abs (Abs (Abs (Var (S (S O)))))))), (Abs (Abs
+    (Abs (App ((Var (S O)), (Var (S (S (S O)))))))))))
+
+(** val lc_result_unwrap_or : term **)
+
+let lc_result_unwrap_or =
+  Abs (Abs (App ((App ((Var (S O)), (Abs (Var (S O))))), (Abs (Var (S (S (S
+    O))))))))
+
+(** val lc_result_map : term **)
+
+let lc_result_map =
+  Abs (Abs (App ((App ((Var (S O)), (Abs (App ((Abs (Abs (Abs (App ((Var (S
+    (S O))), (Var (S (S (S O))))))))), (App ((Var (S (S (S O)))), (Var (S
+    O))))))))), (Abs (Abs (Abs (App ((Var (S O)), (Var (S (S (S O))))))))))))
+
+(** val lc_result_map_err : term **)
+
+let lc_result_map_err =
+  Abs (Abs (App ((App ((Var (S O)), (Abs (Abs (Abs (App ((Var (S (S O))),
+    (Var (S (S (S O))))))))))), (Abs (App ((Abs (Abs (Abs (App ((Var (S O)),
+    (Var (S (S (S O))))))))), (App ((Var (S (S (S O)))), (Var (S O))))))))))
+
+(** val lc_result_and_then : term **)
+
+let lc_result_and_then =
+  Abs (Abs (App ((App ((Var (S (S O))), (Var (S O)))), (Abs (Abs (Abs (App
+    ((Var (S O)), (Var (S (S (S O))))))))))))
+
+(** val lc_num_church_zero : term **)
+
+let lc_num_church_zero =
+  Abs (Abs (Var (S O)))
+
+(** val lc_num_church_is_zero : term **)
+
+let lc_num_church_is_zero =
+  Abs (App ((App ((Var (S O)), (Abs (Abs (Abs (Var (S O))))))), (Abs (Abs
+    (Var (S (S O)))))))
+
+(** val lc_num_church_one : term **)
+
+let lc_num_church_one =
+  Abs (Abs (App ((Var (S (S O))), (Var (S O)))))
+
+(** val lc_num_church_succ : term **)
+
+let lc_num_church_succ =
+  Abs (Abs (Abs (App ((Var (S (S O))), (App ((App ((Var (S (S (S O)))), (Var
+    (S (S O))))), (Var (S O))))))))
+
+(** val lc_num_church_pred : term **)
+
+let lc_num_church_pred =
+  Abs (Abs (Abs (App ((App ((App ((Var (S (S (S O)))), (Abs (Abs (App ((Var
+    (S O)), (App ((Var (S (S O))), (Var (S (S (S (S O))))))))))))), (Abs (Var
+    (S (S O)))))), (Abs (Var (S O)))))))
+
+(** val lc_num_church_add : term **)
+
+let lc_num_church_add =
+  Abs (Abs (App ((App ((Var (S O)), (Abs (Abs (Abs (App ((Var (S (S O))),
+    (App ((App ((Var (S (S (S O)))), (Var (S (S O))))), (Var (S O))))))))))),
+    (Var (S (S O))))))
+
+(** val lc_num_church_sub : term **)
+
+let lc_num_church_sub =
+  Abs (Abs (App ((App ((Var (S O)), (Abs (Abs (Abs (App ((App ((App ((Var (S
+    (S (S O)))), (Abs (Abs (App ((Var (S O)), (App ((Var (S (S O))), (Var (S
+    (S (S (S O))))))))))))), (Abs (Var (S (S O)))))), (Abs (Var (S
+    O)))))))))), (Var (S (S O))))))
+
+(** val lc_num_church_mul : term **)
+
+let lc_num_church_mul =
+  Abs (Abs (Abs (App ((Var (S (S (S O)))), (App ((Var (S (S O))), (Var (S
+    O))))))))
+
+(** val lc_num_church_pow : term **)
+
+let lc_num_church_pow =
+  Abs (Abs (App ((App ((App ((Abs (App ((App ((Var (S O)), (Abs (Abs (Abs
+    (Var (S O))))))), (Abs (Abs (Var (S (S O)))))))), (Var (S O)))), (Abs
+    (Abs (App ((Var (S (S O))), (Var (S O)))))))), (App ((Var (S O)), (Var (S
+    (S O))))))))
+
+(** val lc_num_church_lt : term **)
+
+let lc_num_church_lt =
+  Abs (Abs (App ((Abs (App ((App ((Var (S O)), (Abs (Abs (Var (S O)))))),
+    (Abs (Abs (Var (S (S O)))))))), (App ((App ((Abs (Abs (App ((Abs (App
+    ((App ((Var (S O)), (Abs (Abs (Abs (Var (S O))))))), (Abs (Abs (Var (S (S
+    O)))))))), (App ((App ((Abs (Abs (App ((App ((Var (S O)), (Abs (Abs (Abs
+    (App ((App ((App ((Var (S (S (S O)))), (Abs (Abs (App ((Var (S O)), (App
+    ((Var (S (S O))), (Var (S (S (S (S O))))))))))))), (Abs (Var (S (S
+    O)))))), (Abs (Var (S O)))))))))), (Var (S (S O))))))), (Var (S (S
+    O))))), (Var (S O)))))))), (Var (S O)))), (Var (S (S O))))))))
+
+(** val lc_num_church_leq : term **)
+
+let lc_num_church_leq =
+  Abs (Abs (App ((Abs (App ((App ((Var (S O)), (Abs (Abs (Abs (Var (S
+    O))))))), (Abs (Abs (Var (S (S O)))))))), (App ((App ((Abs (Abs (App
+    ((App ((Var (S O)), (Abs (Abs (Abs (App ((App ((App ((Var (S (S (S O)))),
+    (Abs (Abs (App ((Var (S O)), (App ((Var (S (S O))), (Var (S (S (S (S
+    O))))))))))))), (Abs (Var (S (S O)))))), (Abs (Var (S O)))))))))), (Var
+    (S (S O))))))), (Var (S (S O))))), (Var (S O)))))))
+
+(** val lc_num_church_eq : term **)
+
+let lc_num_church_eq =
+  Abs (Abs (App ((App ((Abs (Abs (App ((App ((Var (S (S O))), (Var (S O)))),
+    (Var (S (S O))))))), (App ((App ((Abs (Abs (App ((Abs (App ((App ((Var (S
+    O)), (Abs (Abs (Abs (Var (S O))))))), (Abs (Abs (Var (S (S O)))))))),
+    (App ((App ((Abs (Abs (App ((App ((Var (S O)), (Abs (Abs (Abs (App ((App
+    ((App ((Var (S (S (S O)))), (Abs (Abs (App ((Var (S O)), (App ((Var (S (S
+    O))), (Var (S (S (S (S O))))))))))))), (Abs (Var (S (S O)))))), (Abs (Var
+    (S O)))))))))), (Var (S (S O))))))), (Var (S (S O))))), (Var (S
+    O)))))))), (Var (S (S O))))), (Var (S O)))))), (App ((App ((Abs (Abs (App
+    ((Abs (App ((App ((Var (S O)), (Abs (Abs (Abs (Var (S O))))))), (Abs (Abs
+    (Var (S (S O)))))))), (App ((App ((Abs (Abs (App ((App ((Var (S O)), (Abs
+    (Abs (Abs (App ((App ((App ((Var (S (S (S O)))), (Abs (Abs (App ((Var (S
+    O)), (App ((Var (S (S O))), (Var (S (S (S (S O))))))))))))), (Abs (Var (S
+    (S O)))))), (Abs (Var (S O)))))))))), (Var (S (S O))))))), (Var (S (S
+    O))))), (Var (S O)))))))), (Var (S O)))), (Var (S (S O))))))))
+
+(** val lc_num_church_neq : term **)
+
+let lc_num_church_neq =
+  Abs (Abs (App ((App ((Abs (Abs (App ((App ((Var (S (S O))), (Var (S (S
+    O))))), (Var (S O)))))), (App ((Abs (App ((App ((Var (S O)), (Abs (Abs
+    (Var (S O)))))), (Abs (Abs (Var (S (S O)))))))), (App ((App ((Abs (Abs
+    (App ((Abs (App ((App ((Var (S O)), (Abs (Abs (Abs (Var (S O))))))), (Abs
+    (Abs (Var (S (S O)))))))), (App ((App ((Abs (Abs (App ((App ((Var (S O)),
+    (Abs (Abs (Abs (App ((App ((App ((Var (S (S (S O)))), (Abs (Abs (App
+    ((Var (S O)), (App ((Var (S (S O))), (Var (S (S (S (S O))))))))))))),
+    (Abs (Var (S (S O)))))), (Abs (Var (S O)))))))))), (Var (S (S O))))))),
+    (Var (S (S O))))), (Var (S O)))))))), (Var (S (S O))))), (Var (S
+    O)))))))), (App ((Abs (App ((App ((Var (S O)), (Abs (Abs (Var (S O)))))),
+    (Abs (Abs (Var (S (S O)))))))), (App ((App ((Abs (Abs (App ((Abs (App
+    ((App ((Var (S O)), (Abs (Abs (Abs (Var (S O))))))), (Abs (Abs (Var (S (S
+    O)))))))), (App ((App ((Abs (Abs (App ((App ((Var (S O)), (Abs (Abs (Abs
+    (App ((App ((App ((Var (S (S (S O)))), (Abs (Abs (App ((Var (S O)), (App
+    ((Var (S (S O))), (Var (S (S (S (S O))))))))))))), (Abs (Var (S (S
+    O)))))), (Abs (Var (S O)))))))))), (Var (S (S O))))))), (Var (S (S
+    O))))), (Var (S O)))))))), (Var (S O)))), (Var (S (S O))))))))))
+
+(** val lc_num_church_geq : term **)
+
+let lc_num_church_geq =
+  Abs (Abs (App ((App ((Abs (Abs (App ((Abs (App ((App ((Var (S O)), (Abs
+    (Abs (Abs (Var (S O))))))), (Abs (Abs (Var (S (S O)))))))), (App ((App
+    ((Abs (Abs (App ((App ((Var (S O)), (Abs (Abs (Abs (App ((App ((App ((Var
+    (S (S (S O)))), (Abs (Abs (App ((Var (S O)), (App ((Var (S (S O))), (Var
+    (S (S (S (S O))))))))))))), (Abs (Var (S (S O)))))), (Abs (Var (S
+    O)))))))))), (Var (S (S O))))))), (Var (S (S O))))), (Var (S O)))))))),
+    (Var (S O)))), (Var (S (S O))))))
+
+(** val lc_num_church_gt : term **)
+
+let lc_num_church_gt =
+  Abs (Abs (App ((Abs (App ((App ((Var (S O)), (Abs (Abs (Var (S O)))))),
+    (Abs (Abs (Var (S (S O)))))))), (App ((App ((Abs (Abs (App ((Abs (App
+    ((App ((Var (S O)), (Abs (Abs (Abs (Var (S O))))))), (Abs (Abs (Var (S (S
+    O)))))))), (App ((App ((Abs (Abs (App ((App ((Var (S O)), (Abs (Abs (Abs
+    (App ((App ((App ((Var (S (S (S O)))), (Abs (Abs (App ((Var (S O)), (App
+    ((Var (S (S O))), (Var (S (S (S (S O))))))))))))), (Abs (Var (S (S
+    O)))))), (Abs (Var (S O)))))))))), (Var (S (S O))))))), (Var (S (S
+    O))))), (Var (S O)))))))), (Var (S (S O))))), (Var (S O)))))))
+
+(** val lc_num_church_div : term **)
+
+let lc_num_church_div =
+  App ((App ((Abs (App ((Abs (App ((Var (S (S O))), (Abs (App ((App ((Var (S
+    (S O))), (Var (S (S O))))), (Var (S O)))))))), (Abs (App ((Var (S (S
+    O))), (Abs (App ((App ((Var (S (S O))), (Var (S (S O))))), (Var (S
+    O))))))))))), (Abs (Abs (Abs (Abs (App ((App ((App ((App ((App ((Abs (Abs
+    (App ((Abs (App ((App ((Var (S O)), (Abs (Abs (Var (S O)))))), (Abs (Abs
+    (Var (S (S O)))))))), (App ((App ((Abs (Abs (App ((Abs (App ((App ((Var
+    (S O)), (Abs (Abs (Abs (Var (S O))))))), (Abs (Abs (Var (S (S O)))))))),
+    (App ((App ((Abs (Abs (App ((App ((Var (S O)), (Abs (Abs (Abs (App ((App
+    ((App ((Var (S (S (S O)))), (Abs (Abs (App ((Var (S O)), (App ((Var (S (S
+    O))), (Var (S (S (S (S O))))))))))))), (Abs (Var (S (S O)))))), (Abs (Var
+    (S O)))))))))), (Var (S (S O))))))), (Var (S (S O))))), (Var (S
+    O)))))))), (Var (S O)))), (Var (S (S O))))))))), (Var (S (S O))))), (Var
+    (S O)))), (Abs (App ((App ((Abs (Abs (Abs (App ((App ((Var (S O)), (Var
+    (S (S (S O)))))), (Var (S (S O)))))))), (Var (S (S (S (S O))))))), (Var
+    (S (S (S O))))))))), (Abs (App ((App ((App ((Var (S (S (S (S (S O)))))),
+    (App ((Abs (Abs (Abs (App ((Var (S (S O))), (App ((App ((Var (S (S (S
+    O)))), (Var (S (S O))))), (Var (S O))))))))), (Var (S (S (S (S
+    O))))))))), (App ((App ((Abs (Abs (App ((App ((Var (S O)), (Abs (Abs (Abs
+    (App ((App ((App ((Var (S (S (S O)))), (Abs (Abs (App ((Var (S O)), (App
+    ((Var (S (S O))), (Var (S (S (S (S O))))))))))))), (Abs (Var (S (S
+    O)))))), (Abs (Var (S O)))))))))), (Var (S (S O))))))), (Var (S (S (S
+    O)))))), (Var (S (S O))))))), (Var (S (S O)))))))), (Abs (Var (S
+    O))))))))))), (Abs (Abs (Var (S O)))))
+
+(** val lc_num_church_quot : term **)
+
+let lc_num_church_quot =
+  App ((Abs (App ((Abs (App ((Var (S (S O))), (Abs (App ((App ((Var (S (S
+    O))), (Var (S (S O))))), (Var (S O)))))))), (Abs (App ((Var (S (S O))),
+    (Abs (App ((App ((Var (S (S O))), (Var (S (S O))))), (Var (S
+    O))))))))))), (Abs (Abs (Abs (App ((App ((App ((App ((App ((Abs (Abs (App
+    ((Abs (App ((App ((Var (S O)), (Abs (Abs (Var (S O)))))), (Abs (Abs (Var
+    (S (S O)))))))), (App ((App ((Abs (Abs (App ((Abs (App ((App ((Var (S
+    O)), (Abs (Abs (Abs (Var (S O))))))), (Abs (Abs (Var (S (S O)))))))),
+    (App ((App ((Abs (Abs (App ((App ((Var (S O)), (Abs (Abs (Abs (App ((App
+    ((App ((Var (S (S (S O)))), (Abs (Abs (App ((Var (S O)), (App ((Var (S (S
+    O))), (Var (S (S (S (S O))))))))))))), (Abs (Var (S (S O)))))), (Abs (Var
+    (S O)))))))))), (Var (S (S O))))))), (Var (S (S O))))), (Var (S
+    O)))))))), (Var (S O)))), (Var (S (S O))))))))), (Var (S (S O))))), (Var
+    (S O)))), (Abs (Abs (Abs (Var (S O))))))), (Abs (App ((Abs (Abs (Abs (App
+    ((Var (S (S O))), (App ((App ((Var (S (S (S O)))), (Var (S (S O))))),
+    (Var (S O))))))))), (App ((App ((Var (S (S (S (S O))))), (App ((App ((Abs
+    (Abs (App ((App ((Var (S O)), (Abs (Abs (Abs (App ((App ((App ((Var (S (S
+    (S O)))), (Abs (Abs (App ((Var (S O)), (App ((Var (S (S O))), (Var (S (S
+    (S (S O))))))))))))), (Abs (Var (S (S O)))))), (Abs (Var (S O)))))))))),
+    (Var (S (S O))))))), (Var (S (S (S O)))))), (Var (S (S O))))))), (Var (S
+    (S O)))))))))), (Abs (Var (S O)))))))))
+
+(** val lc_num_church_rem : term **)
+
+let lc_num_church_rem =
+  App ((Abs (App ((Abs (App ((Var (S (S O))), (Abs (App ((App ((Var (S (S
+    O))), (Var (S (S O))))), (Var (S O)))))))), (Abs (App ((Var (S (S O))),
+    (Abs (App ((App ((Var (S (S O))), (Var (S (S O))))), (Var (S
+    O))))))))))), (Abs (Abs (Abs (App ((App ((App ((App ((App ((Abs (Abs (App
+    ((Abs (App ((App ((Var (S O)), (Abs (Abs (Var (S O)))))), (Abs (Abs (Var
+    (S (S O)))))))), (App ((App ((Abs (Abs (App ((Abs (App ((App ((Var (S
+    O)), (Abs (Abs (Abs (Var (S O))))))), (Abs (Abs (Var (S (S O)))))))),
+    (App ((App ((Abs (Abs (App ((App ((Var (S O)), (Abs (Abs (Abs (App ((App
+    ((App ((Var (S (S (S O)))), (Abs (Abs (App ((Var (S O)), (App ((Var (S (S
+    O))), (Var (S (S (S (S O))))))))))))), (Abs (Var (S (S O)))))), (Abs (Var
+    (S O)))))))))), (Var (S (S O))))))), (Var (S (S O))))), (Var (S
+    O)))))))), (Var (S O)))), (Var (S (S O))))))))), (Var (S (S O))))), (Var
+    (S O)))), (Abs (Var (S (S (S O))))))), (Abs (App ((App ((Var (S (S (S (S
+    O))))), (App ((App ((Abs (Abs (App ((App ((Var (S O)), (Abs (Abs (Abs
+    (App ((App ((App ((Var (S (S (S O)))), (Abs (Abs (App ((Var (S O)), (App
+    ((Var (S (S O))), (Var (S (S (S (S O))))))))))))), (Abs (Var (S (S
+    O)))))), (Abs (Var (S O)))))))))), (Var (S (S O))))))), (Var (S (S (S
+    O)))))), (Var (S (S O))))))), (Var (S (S O)))))))), (Abs (Var (S
+    O)))))))))
+
+(** val lc_num_church_fac : term **)
+
+let lc_num_church_fac =
+  Abs (App ((App ((App ((App ((Var (S O)), (Abs (Abs (Abs (App ((App ((Var (S
+    (S (S O)))), (App ((App ((Abs (Abs (Abs (App ((Var (S (S (S O)))), (App
+    ((Var (S (S O))), (Var (S O))))))))), (Var (S (S O))))), (Var (S O)))))),
+    (App ((Abs (Abs (Abs (App ((Var (S (S O))), (App ((App ((Var (S (S (S
+    O)))), (Var (S (S O))))), (Var (S O))))))))), (Var (S O))))))))))), (Abs
+    (Abs (Var (S (S O))))))), (Abs (Abs (App ((Var (S (S O))), (Var (S
+    O)))))))), (Abs (Abs (App ((Var (S (S O))), (Var (S O))))))))
+
+(** val lc_num_church_min : term **)
+
+let lc_num_church_min =
+  Abs (Abs (App ((App ((App ((App ((Abs (Abs (App ((Abs (App ((App ((Var (S
+    O)), (Abs (Abs (Abs (Var (S O))))))), (Abs (Abs (Var (S (S O)))))))),
+    (App ((App ((Abs (Abs (App ((App ((Var (S O)), (Abs (Abs (Abs (App ((App
+    ((App ((Var (S (S (S O)))), (Abs (Abs (App ((Var (S O)), (App ((Var (S (S
+    O))), (Var (S (S (S (S O))))))))))))), (Abs (Var (S (S O)))))), (Abs (Var
+    (S O)))))))))), (Var (S (S O))))))), (Var (S (S O))))), (Var (S
+    O)))))))), (Var (S (S O))))), (Var (S O)))), (Var (S (S O))))), (Var (S
+    O)))))
+
+(** val lc_num_church_max : term **)
+
+let lc_num_church_max =
+  Abs (Abs (App ((App ((App ((App ((Abs (Abs (App ((Abs (App ((App ((Var (S
+    O)), (Abs (Abs (Abs (Var (S O))))))), (Abs (Abs (Var (S (S O)))))))),
+    (App ((App ((Abs (Abs (App ((App ((Var (S O)), (Abs (Abs (Abs (App ((App
+    ((App ((Var (S (S (S O)))), (Abs (Abs (App ((Var (S O)), (App ((Var (S (S
+    O))), (Var (S (S (S (S O))))))))))))), (Abs (Var (S (S O)))))), (Abs (Var
+    (S O)))))))))), (Var (S (S O))))))), (Var (S (S O))))), (Var (S
+    O)))))))), (Var (S (S O))))), (Var (S O)))), (Var (S O)))), (Var (S (S
+    O))))))
+
+(** val lc_num_church_shl : term **)
+
+let lc_num_church_shl =
+  Abs (Abs (App ((App ((Abs (Abs (Abs (App ((Var (S (S (S O)))), (App ((Var
+    (S (S O))), (Var (S O))))))))), (Var (S (S O))))), (App ((App ((Abs (Abs
+    (App ((App ((App ((Abs (App ((App ((Var (S O)), (Abs (Abs (Abs (Var (S
+    O))))))), (Abs (Abs (Var (S (S O)))))))), (Var (S O)))), (Abs (Abs (App
+    ((Var (S (S O))), (Var (S O)))))))), (App ((Var (S O)), (Var (S (S
+    O))))))))), (App ((Abs (Abs (Abs (App ((Var (S (S O))), (App ((App ((Var
+    (S (S (S O)))), (Var (S (S O))))), (Var (S O))))))))), (Abs (Abs (App
+    ((Var (S (S O))), (Var (S O)))))))))), (Var (S O)))))))
+
+(** val lc_num_church_shr : term **)
+
+let lc_num_church_shr =
+  Abs (Abs (App ((App ((App ((Abs (App ((App ((Var (S O)), (Abs (Abs (Abs
+    (Var (S O))))))), (Abs (Abs (Var (S (S O)))))))), (Var (S O)))), (Var (S
+    (S O))))), (App ((App ((App ((Abs (App ((Abs (App ((Var (S (S O))), (Abs
+    (App ((App ((Var (S (S O))), (Var (S (S O))))), (Var (S O)))))))), (Abs
+    (App ((Var (S (S O))), (Abs (App ((App ((Var (S (S O))), (Var (S (S
+    O))))), (Var (S O))))))))))), (Abs (Abs (Abs (App ((App ((App ((App ((App
+    ((Abs (Abs (App ((Abs (App ((App ((Var (S O)), (Abs (Abs (Var (S O)))))),
+    (Abs (Abs (Var (S (S O)))))))), (App ((App ((Abs (Abs (App ((Abs (App
+    ((App ((Var (S O)), (Abs (Abs (Abs (Var (S O))))))), (Abs (Abs (Var (S (S
+    O)))))))), (App ((App ((Abs (Abs (App ((App ((Var (S O)), (Abs (Abs (Abs
+    (App ((App ((App ((Var (S (S (S O)))), (Abs (Abs (App ((Var (S O)), (App
+    ((Var (S (S O))), (Var (S (S (S (S O))))))))))))), (Abs (Var (S (S
+    O)))))), (Abs (Var (S O)))))))))), (Var (S (S O))))))), (Var (S (S
+    O))))), (Var (S O)))))))), (Var (S O)))), (Var (S (S O))))))))), (Var (S
+    (S O))))), (Var (S O)))), (Abs (Abs (Abs (Var (S O))))))), (Abs (App
+    ((Abs (Abs (Abs (App ((Var (S (S O))), (App ((App ((Var (S (S (S O)))),
+    (Var (S (S O))))), (Var (S O))))))))), (App ((App ((Var (S (S (S (S
+    O))))), (App ((App ((Abs (Abs (App ((App ((Var (S O)), (Abs (Abs (Abs
+    (App ((App ((App ((Var (S (S (S O)))), (Abs (Abs (App ((Var (S O)), (App
+    ((Var (S (S O))), (Var (S (S (S (S O))))))))))))), (Abs (Var (S (S
+    O)))))), (Abs (Var (S O)))))))))), (Var (S (S O))))))), (Var (S (S (S
+    O)))))), (Var (S (S O))))))), (Var (S (S O)))))))))), (Abs (Var (S
+    O)))))))))), (Var (S (S O))))), (App ((App ((Abs (Abs (App ((App ((App
+    ((Abs (App ((App ((Var (S O)), (Abs (Abs (Abs (Var (S O))))))), (Abs (Abs
+    (Var (S (S O)))))))), (Var (S O)))), (Abs (Abs (App ((Var (S (S O))),
+    (Var (S O)))))))), (App ((Var (S O)), (Var (S (S O))))))))), (App ((Abs
+    (Abs (Abs (App ((Var (S (S O))), (App ((App ((Var (S (S (S O)))), (Var (S
+    (S O))))), (Var (S O))))))))), (Abs (Abs (App ((Var (S (S O))), (Var (S
+    O)))))))))), (Var (S O)))))))))
+
+(** val lc_num_church_is_even : term **)
+
+let lc_num_church_is_even =
+  Abs (App ((App ((Var (S O)), (Abs (App ((App ((Var (S O)), (Abs (Abs (Var
+    (S O)))))), (Abs (Abs (Var (S (S O)))))))))), (Abs (Abs (Var (S (S
+    O)))))))
+
+(** val lc_num_church_is_odd : term **)
+
+let lc_num_church_is_odd =
+  Abs (App ((App ((Var (S O)), (Abs (App ((App ((Var (S O)), (Abs (Abs (Var
+    (S O)))))), (Abs (Abs (Var (S (S O)))))))))), (Abs (Abs (Var (S O))))))
+
+(** val lc_num_church_to_scott : term **)
+
+let lc_num_church_to_scott =
+  Abs (App ((App ((Var (S O)), (Abs (Abs (Abs (App ((Var (S O)), (Var (S (S
+    (S O))))))))))), (Abs (Abs (Var (S (S O)))))))
+
+(** val lc_num_church_to_parigot : term **)
+
+let lc_num_church_to_parigot =
+  Abs (App ((App ((Var (S O)), (Abs (Abs (Abs (App ((App ((Var (S (S O))),
+    (Var (S (S (S O)))))), (App ((App ((Var (S (S (S O)))), (Var (S (S
+    O))))), (Var (S O))))))))))), (Abs (Abs (Var (S O))))))
+
+(** val lc_num_church_to_stumpfu : term **)
+
+let lc_num_church_to_stumpfu =
+  Abs (App ((App ((Var (S O)), (Abs (App ((App ((Var (S O)), (Abs (Abs (Abs
+    (Abs (App ((App ((Var (S (S O))), (App ((Abs (Abs (Abs (App ((Var (S (S
+    O))), (App ((App ((Var (S (S (S O)))), (Var (S (S O))))), (Var (S
+    O))))))))), (Var (S (S (S (S O))))))))), (Var (S (S (S (S (S
+    O)))))))))))))), (Abs (Abs (App ((App ((Var (S (S O))), (Abs (Abs (App
+    ((Var (S (S O))), (Var (S O)))))))), (Abs (Abs (Var (S O))))))))))))),
+    (Abs (Abs (Var (S O))))))
+
+(** val lc_num_scott_zero : term **)
+
+let lc_num_scott_zero =
+  Abs (Abs (Var (S (S O))))
+
+(** val lc_num_scott_is_zero : term **)
+
+let lc_num_scott_is_zero =
+  Abs (App ((App ((Var (S O)), (Abs (Abs (Var (S (S O))))))), (Abs (Abs (Abs
+    (Var (S O)))))))
+
+(** val lc_num_scott_one : term **)
+
+let lc_num_scott_one =
+  Abs (Abs (App ((Var (S O)), (Abs (Abs (Var (S (S O))))))))
+
+(** val lc_num_scott_succ : term **)
+
+let lc_num_scott_succ =
+  Abs (Abs (Abs (App ((Var (S O)), (Var (S (S (S O))))))))
+
+(** val lc_num_scott_pred : term **)
+
+let lc_num_scott_pred =
+  Abs (App ((App ((Var (S O)), (Abs (Abs (Var (S (S O))))))), (Abs (Var (S
+    O)))))
+
+(** val lc_num_scott_add : term **)
+
+let lc_num_scott_add =
+  App ((Abs (App ((Abs (App ((Var (S (S O))), (Abs (App ((App ((Var (S (S
+    O))), (Var (S (S O))))), (Var (S O)))))))), (Abs (App ((Var (S (S O))),
+    (Abs (App ((App ((Var (S (S O))), (Var (S (S O))))), (Var (S
+    O))))))))))), (Abs (Abs (Abs (App ((App ((Var (S (S O))), (Var (S O)))),
+    (Abs (App ((Abs (Abs (Abs (App ((Var (S O)), (Var (S (S (S O))))))))),
+    (App ((App ((Var (S (S (S (S O))))), (Var (S O)))), (Var (S (S
+    O))))))))))))))
+
+(** val lc_num_scott_mul : term **)
+
+let lc_num_scott_mul =
+  App ((Abs (App ((Abs (App ((Var (S (S O))), (Abs (App ((App ((Var (S (S
+    O))), (Var (S (S O))))), (Var (S O)))))))), (Abs (App ((Var (S (S O))),
+    (Abs (App ((App ((Var (S (S O))), (Var (S (S O))))), (Var (S
+    O))))))))))), (Abs (Abs (Abs (App ((App ((Var (S (S O))), (Abs (Abs (Var
+    (S (S O))))))), (Abs (App ((App ((App ((Abs (App ((Abs (App ((Var (S (S
+    O))), (Abs (App ((App ((Var (S (S O))), (Var (S (S O))))), (Var (S
+    O)))))))), (Abs (App ((Var (S (S O))), (Abs (App ((App ((Var (S (S O))),
+    (Var (S (S O))))), (Var (S O))))))))))), (Abs (Abs (Abs (App ((App ((Var
+    (S (S O))), (Var (S O)))), (Abs (App ((Abs (Abs (Abs (App ((Var (S O)),
+    (Var (S (S (S O))))))))), (App ((App ((Var (S (S (S (S O))))), (Var (S
+    O)))), (Var (S (S O))))))))))))))), (Var (S (S O))))), (App ((App ((Var
+    (S (S (S (S O))))), (Var (S O)))), (Var (S (S O))))))))))))))
+
+(** val lc_num_scott_pow : term **)
+
+let lc_num_scott_pow =
+  App ((Abs (App ((Abs (App ((Var (S (S O))), (Abs (App ((App ((Var (S (S
+    O))), (Var (S (S O))))), (Var (S O)))))))), (Abs (App ((Var (S (S O))),
+    (Abs (App ((App ((Var (S (S O))), (Var (S (S O))))), (Var (S
+    O))))))))))), (Abs (Abs (Abs (App ((App ((Var (S O)), (Abs (Abs (App
+    ((Var (S O)), (Abs (Abs (Var (S (S O))))))))))), (Abs (App ((App ((App
+    ((Abs (App ((Abs (App ((Var (S (S O))), (Abs (App ((App ((Var (S (S O))),
+    (Var (S (S O))))), (Var (S O)))))))), (Abs (App ((Var (S (S O))), (Abs
+    (App ((App ((Var (S (S O))), (Var (S (S O))))), (Var (S O))))))))))),
+    (Abs (Abs (Abs (App ((App ((Var (S (S O))), (Abs (Abs (Var (S (S
+    O))))))), (Abs (App ((App ((App ((Abs (App ((Abs (App ((Var (S (S O))),
+    (Abs (App ((App ((Var (S (S O))), (Var (S (S O))))), (Var (S O)))))))),
+    (Abs (App ((Var (S (S O))), (Abs (App ((App ((Var (S (S O))), (Var (S (S
+    O))))), (Var (S O))))))))))), (Abs (Abs (Abs (App ((App ((Var (S (S O))),
+    (Var (S O)))), (Abs (App ((Abs (Abs (Abs (App ((Var (S O)), (Var (S (S (S
+    O))))))))), (App ((App ((Var (S (S (S (S O))))), (Var (S O)))), (Var (S
+    (S O))))))))))))))), (Var (S (S O))))), (App ((App ((Var (S (S (S (S
+    O))))), (Var (S O)))), (Var (S (S O))))))))))))))), (Var (S (S (S
+    O)))))), (App ((App ((Var (S (S (S (S O))))), (Var (S (S (S O)))))), (Var
+    (S O)))))))))))))
+
+(** val lc_num_scott_to_church : term **)
+
+let lc_num_scott_to_church =
+  Abs (Abs (Abs (App ((App ((App ((App ((Abs (App ((Abs (App ((Var (S (S
+    O))), (Abs (App ((App ((Var (S (S O))), (Var (S (S O))))), (Var (S
+    O)))))))), (Abs (App ((Var (S (S O))), (Abs (App ((App ((Var (S (S O))),
+    (Var (S (S O))))), (Var (S O))))))))))), (Abs (Abs (Abs (Abs (App ((App
+    ((Var (S O)), (Var (S (S O))))), (Abs (App ((Var (S (S (S (S O))))), (App
+    ((App ((App ((Var (S (S (S (S (S O)))))), (Var (S (S (S (S O))))))), (Var
+    (S (S (S O)))))), (Var (S O))))))))))))))), (Var (S (S O))))), (Var (S
+    O)))), (Var (S (S (S O))))))))
+
+(** val lc_num_parigot_zero : term **)
+
+let lc_num_parigot_zero =
+  Abs (Abs (Var (S O)))
+
+(** val lc_num_parigot_is_zero : term **)
+
+let lc_num_parigot_is_zero =
+  Abs (App ((App ((Var (S O)), (Abs (Abs (Abs (Abs (Var (S O)))))))), (Abs
+    (Abs (Var (S (S O)))))))
+
+(** val lc_num_parigot_one : term **)
+
+let lc_num_parigot_one =
+  Abs (Abs (App ((App ((Var (S (S O))), (Abs (Abs (Var (S O)))))), (Var (S
+    O)))))
+
+(** val lc_num_parigot_succ : term **)
+
+let lc_num_parigot_succ =
+  Abs (Abs (Abs (App ((App ((Var (S (S O))), (Var (S (S (S O)))))), (App
+    ((App ((Var (S (S (S O)))), (Var (S (S O))))), (Var (S O))))))))
+
+(** val lc_num_parigot_pred : term **)
+
+let lc_num_parigot_pred =
+  Abs (App ((App ((Var (S O)), (Abs (Abs (Var (S (S O))))))), (Abs (Abs (Var
+    (S O))))))
+
+(** val lc_num_parigot_add : term **)
+
+let lc_num_parigot_add =
+  Abs (Abs (App ((App ((Var (S (S O))), (Abs (Abs (Abs (Abs (App ((App ((Var
+    (S (S O))), (Var (S (S (S O)))))), (App ((App ((Var (S (S (S O)))), (Var
+    (S (S O))))), (Var (S O)))))))))))), (Var (S O)))))
+
+(** val lc_num_parigot_sub : term **)
+
+let lc_num_parigot_sub =
+  Abs (Abs (App ((App ((Var (S O)), (Abs (Abs (App ((App ((Var (S O)), (Abs
+    (Abs (Var (S (S O))))))), (Abs (Abs (Var (S O)))))))))), (Var (S (S
+    O))))))
+
+(** val lc_num_parigot_mul : term **)
+
+let lc_num_parigot_mul =
+  Abs (Abs (App ((App ((Var (S (S O))), (Abs (App ((Abs (Abs (App ((App ((Var
+    (S (S O))), (Abs (Abs (Abs (Abs (App ((App ((Var (S (S O))), (Var (S (S
+    (S O)))))), (App ((App ((Var (S (S (S O)))), (Var (S (S O))))), (Var (S
+    O)))))))))))), (Var (S O)))))), (Var (S (S O)))))))), (Abs (Abs (Var (S
+    O)))))))
+
+(** val lc_num_stumpfu_zero : term **)
+
+let lc_num_stumpfu_zero =
+  Abs (Abs (Var (S O)))
+
+(** val lc_num_stumpfu_is_zero : term **)
+
+let lc_num_stumpfu_is_zero =
+  Abs (App ((App ((Var (S O)), (Abs (Abs (Abs (Abs (Var (S O)))))))), (Abs
+    (Abs (Var (S (S O)))))))
+
+(** val lc_num_stumpfu_one : term **)
+
+let lc_num_stumpfu_one =
+  Abs (Abs (App ((App ((Var (S (S O))), (Abs (Abs (App ((Var (S (S O))), (Var
+    (S O)))))))), (Abs (Abs (Var (S O)))))))
+
+(** val lc_num_stumpfu_succ : term **)
+
+let lc_num_stumpfu_succ =
+  Abs (App ((App ((Var (S O)), (Abs (Abs (Abs (Abs (App ((App ((Var (S (S
+    O))), (App ((Abs (Abs (Abs (App ((Var (S (S O))), (App ((App ((Var (S (S
+    (S O)))), (Var (S (S O))))), (Var (S O))))))))), (Var (S (S (S (S
+    O))))))))), (Var (S (S (S (S (S O)))))))))))))), (Abs (Abs (App ((App
+    ((Var (S (S O))), (Abs (Abs (App ((Var (S (S O))), (Var (S O)))))))),
+    (Abs (Abs (Var (S O))))))))))
+
+(** val lc_num_stumpfu_pred : term **)
+
+let lc_num_stumpfu_pred =
+  Abs (App ((App ((Var (S O)), (Abs (Abs (Var (S O)))))), (Abs (Abs (Var (S
+    O))))))
+
+(** val lc_num_stumpfu_add : term **)
+
+let lc_num_stumpfu_add =
+  Abs (Abs (App ((App ((Var (S (S O))), (Abs (Abs (App ((App ((Var (S (S
+    O))), (Abs (App ((App ((Var (S O)), (Abs (Abs (Abs (Abs (App ((App ((Var
+    (S (S O))), (App ((Abs (Abs (Abs (App ((Var (S (S O))), (App ((App ((Var
+    (S (S (S O)))), (Var (S (S O))))), (Var (S O))))))))), (Var (S (S (S (S
+    O))))))))), (Var (S (S (S (S (S O)))))))))))))), (Abs (Abs (App ((App
+    ((Var (S (S O))), (Abs (Abs (App ((Var (S (S O))), (Var (S O)))))))),
+    (Abs (Abs (Var (S O))))))))))))), (Var (S (S (S O)))))))))), (Var (S
+    O)))))
+
+(** val lc_num_stumpfu_mul : term **)
+
+let lc_num_stumpfu_mul =
+  Abs (Abs (App ((App ((Var (S (S O))), (Abs (Abs (App ((App ((Var (S (S
+    O))), (Abs (App ((App ((Abs (Abs (App ((App ((Var (S (S O))), (Abs (Abs
+    (App ((App ((Var (S (S O))), (Abs (App ((App ((Var (S O)), (Abs (Abs (Abs
+    (Abs (App ((App ((Var (S (S O))), (App ((Abs (Abs (Abs (App ((Var (S (S
+    O))), (App ((App ((Var (S (S (S O)))), (Var (S (S O))))), (Var (S
+    O))))))))), (Var (S (S (S (S O))))))))), (Var (S (S (S (S (S
+    O)))))))))))))), (Abs (Abs (App ((App ((Var (S (S O))), (Abs (Abs (App
+    ((Var (S (S O))), (Var (S O)))))))), (Abs (Abs (Var (S O))))))))))))),
+    (Var (S (S (S O)))))))))), (Var (S O)))))), (Var (S (S (S (S O))))))),
+    (Var (S O))))))), (Abs (Abs (Var (S O)))))))))), (Abs (Abs (Var (S
+    O)))))))
+
+(** val lc_num_stumpfu_to_church : term **)
+
+let lc_num_stumpfu_to_church =
+  Abs (App ((App ((Var (S O)), (Abs (Abs (Var (S (S O))))))), (Var (S O))))
+
+(** val lc_num_stumpfu_to_scott : term **)
+
+let lc_num_stumpfu_to_scott =
+  Abs (App ((Abs (App ((App ((Var (S O)), (Abs (Abs (Abs (App ((Var (S O)),
+    (Var (S (S (S O))))))))))), (Abs (Abs (Var (S (S O)))))))), (App ((App
+    ((Var (S O)), (Abs (Abs (Var (S (S O))))))), (Var (S O))))))
+
+(** val lc_num_stumpfu_to_parigot : term **)
+
+let lc_num_stumpfu_to_parigot =
+  Abs (App ((Abs (App ((App ((Var (S O)), (Abs (Abs (Abs (App ((App ((Var (S
+    (S O))), (Var (S (S (S O)))))), (App ((App ((Var (S (S (S O)))), (Var (S
+    (S O))))), (Var (S O))))))))))), (Abs (Abs (Var (S O))))))), (App ((App
+    ((Var (S O)), (Abs (Abs (Var (S (S O))))))), (Var (S O))))))
+
+(** val lc_num_binary_b0 : term **)
+
+let lc_num_binary_b0 =
+  Abs (Abs (Var (S (S O))))
+
+(** val lc_num_binary_b1 : term **)
+
+let lc_num_binary_b1 =
+  Abs (Abs (Var (S O)))
+
+(** val lc_num_binary_zero : term **)
+
+let lc_num_binary_zero =
+  Abs (Abs (Abs (Var (S (S (S O))))))
+
+(** val lc_num_binary_is_zero : term **)
+
+let lc_num_binary_is_zero =
+  Abs (App ((App ((App ((Var (S O)), (Abs (Abs (Var (S (S O))))))), (Abs (Var
+    (S O))))), (Abs (Abs (Abs (Var (S O)))))))
+
+(** val lc_num_binary_one : term **)
+
+let lc_num_binary_one =
+  Abs (Abs (Abs (App ((Var (S O)), (Var (S (S (S O))))))))
+
+(** val lc_num_binary_succ : term **)
+
+let lc_num_binary_succ =
+  Abs (App ((Abs (App ((Var (S O)), (Abs (Abs (Var (S O))))))), (App ((App
+    ((App ((Var (S O)), (App ((App ((Abs (Abs (Abs (App ((App ((Var (S O)),
+    (Var (S (S (S O)))))), (Var (S (S O)))))))), (Abs (Abs (Abs (Var (S (S (S
+    O))))))))), (Abs (Abs (Abs (App ((Var (S O)), (Var (S (S (S
+    O))))))))))))), (Abs (App ((Var (S O)), (Abs (Abs (App ((App ((Abs (Abs
+    (Abs (App ((App ((Var (S O)), (Var (S (S (S O)))))), (Var (S (S
+    O)))))))), (App ((Abs (Abs (Abs (Abs (App ((Var (S (S O))), (App ((App
+    ((App ((Var (S (S (S (S O))))), (Var (S (S (S O)))))), (Var (S (S O))))),
+    (Var (S O)))))))))), (Var (S (S O))))))), (App ((Abs (Abs (Abs (Abs (App
+    ((Var (S O)), (App ((App ((App ((Var (S (S (S (S O))))), (Var (S (S (S
+    O)))))), (Var (S (S O))))), (Var (S O)))))))))), (Var (S (S
+    O)))))))))))))), (Abs (App ((Var (S O)), (Abs (Abs (App ((App ((Abs (Abs
+    (Abs (App ((App ((Var (S O)), (Var (S (S (S O)))))), (Var (S (S
+    O)))))))), (App ((Abs (Abs (Abs (Abs (App ((Var (S O)), (App ((App ((App
+    ((Var (S (S (S (S O))))), (Var (S (S (S O)))))), (Var (S (S O))))), (Var
+    (S O)))))))))), (Var (S (S O))))))), (App ((Abs (Abs (Abs (Abs (App ((Var
+    (S (S O))), (App ((App ((App ((Var (S (S (S (S O))))), (Var (S (S (S
+    O)))))), (Var (S (S O))))), (Var (S O)))))))))), (Var (S O)))))))))))))))
+
+(** val lc_num_binary_pred : term **)
+
+let lc_num_binary_pred =
+  Abs (App ((Abs (App ((Var (S O)), (Abs (Abs (Var (S O))))))), (App ((App
+    ((App ((Var (S O)), (App ((App ((Abs (Abs (Abs (App ((App ((Var (S O)),
+    (Var (S (S (S O)))))), (Var (S (S O)))))))), (Abs (Abs (Abs (Var (S (S (S
+    O))))))))), (Abs (Abs (Abs (Var (S (S (S O))))))))))), (Abs (App ((Var (S
+    O)), (Abs (Abs (App ((App ((Abs (Abs (Abs (App ((App ((Var (S O)), (Var
+    (S (S (S O)))))), (Var (S (S O)))))))), (App ((Abs (Abs (Abs (Abs (App
+    ((Var (S (S O))), (App ((App ((App ((Var (S (S (S (S O))))), (Var (S (S
+    (S O)))))), (Var (S (S O))))), (Var (S O)))))))))), (Var (S (S O))))))),
+    (App ((Abs (Abs (Abs (Abs (App ((Var (S O)), (App ((App ((App ((Var (S (S
+    (S (S O))))), (Var (S (S (S O)))))), (Var (S (S O))))), (Var (S
+    O)))))))))), (Var (S O))))))))))))), (Abs (App ((Var (S O)), (Abs (Abs
+    (App ((App ((Abs (Abs (Abs (App ((App ((Var (S O)), (Var (S (S (S
+    O)))))), (Var (S (S O)))))))), (App ((Abs (Abs (Abs (Abs (App ((Var (S
+    O)), (App ((App ((App ((Var (S (S (S (S O))))), (Var (S (S (S O)))))),
+    (Var (S (S O))))), (Var (S O)))))))))), (Var (S (S O))))))), (App ((Abs
+    (Abs (Abs (Abs (App ((Var (S (S O))), (App ((App ((App ((Var (S (S (S (S
+    O))))), (Var (S (S (S O)))))), (Var (S (S O))))), (Var (S O)))))))))),
+    (Var (S (S O))))))))))))))))
+
+(** val lc_num_binary_lsb : term **)
+
+let lc_num_binary_lsb =
+  Abs (App ((App ((App ((Var (S O)), (Abs (Abs (Var (S (S O))))))), (Abs (Abs
+    (Abs (Var (S (S O)))))))), (Abs (Abs (Abs (Var (S O)))))))
+
+(** val lc_num_binary_shl0 : term **)
+
+let lc_num_binary_shl0 =
+  Abs (Abs (Abs (Abs (App ((Var (S (S O))), (App ((App ((App ((Var (S (S (S
+    (S O))))), (Var (S (S (S O)))))), (Var (S (S O))))), (Var (S O)))))))))
+
+(** val lc_num_binary_shl1 : term **)
+
+let lc_num_binary_shl1 =
+  Abs (Abs (Abs (Abs (App ((Var (S O)), (App ((App ((App ((Var (S (S (S (S
+    O))))), (Var (S (S (S O)))))), (Var (S (S O))))), (Var (S O)))))))))
+
+(** val lc_num_binary_strip : term **)
+
+let lc_num_binary_strip =
+  Abs (App ((Abs (App ((Var (S O)), (Abs (Abs (Var (S (S O)))))))), (App
+    ((App ((App ((Var (S O)), (App ((App ((Abs (Abs (Abs (App ((App ((Var (S
+    O)), (Var (S (S (S O)))))), (Var (S (S O)))))))), (Abs (Abs (Abs (Var (S
+    (S (S O))))))))), (Abs (Abs (Var (S (S O))))))))), (Abs (App ((Var (S
+    O)), (Abs (Abs (App ((App ((Abs (Abs (Abs (App ((App ((Var (S O)), (Var
+    (S (S (S O)))))), (Var (S (S O)))))))), (App ((App ((Var (S O)), (Abs
+    (Abs (Abs (Var (S (S (S O))))))))), (App ((Abs (Abs (Abs (Abs (App ((Var
+    (S (S O))), (App ((App ((App ((Var (S (S (S (S O))))), (Var (S (S (S
+    O)))))), (Var (S (S O))))), (Var (S O)))))))))), (Var (S (S O))))))))),
+    (Var (S O))))))))))), (Abs (App ((Var (S O)), (Abs (Abs (App ((App ((Abs
+    (Abs (Abs (App ((App ((Var (S O)), (Var (S (S (S O)))))), (Var (S (S
+    O)))))))), (App ((Abs (Abs (Abs (Abs (App ((Var (S O)), (App ((App ((App
+    ((Var (S (S (S (S O))))), (Var (S (S (S O)))))), (Var (S (S O))))), (Var
+    (S O)))))))))), (Var (S (S O))))))), (Abs (Abs (Var (S O)))))))))))))))
+
+(** val lc_num_signed_neg : term **)
+
+let lc_num_signed_neg =
+  Abs (App ((App ((Abs (Abs (Abs (App ((App ((Var (S O)), (Var (S (S (S
+    O)))))), (Var (S (S O)))))))), (App ((Abs (App ((Var (S O)), (Abs (Abs
+    (Var (S O))))))), (Var (S O)))))), (App ((Abs (App ((Var (S O)), (Abs
+    (Abs (Var (S (S O)))))))), (Var (S O))))))
+
+(** val lc_list_pair_nil : term **)
+
+let lc_list_pair_nil =
+  Abs (Abs (Var (S O)))
+
+(** val lc_list_pair_is_nil : term **)
+
+let lc_list_pair_is_nil =
+  Abs (App ((App ((Var (S O)), (Abs (Abs (Abs (Abs (Abs (Var (S O))))))))),
+    (Abs (Abs (Var (S (S O)))))))
+
+(** val lc_list_pair_cons : term **)
+
+let lc_list_pair_cons =
+  Abs (Abs (Abs (App ((App ((Var (S O)), (Var (S (S (S O)))))), (Var (S (S
+    O)))))))
+
+(** val lc_list_pair_head : term **)
+
+let lc_list_pair_head =
+  Abs (App ((Var (S O)), (Abs (Abs (Var (S (S O)))))))
+
+(** val lc_list_pair_tail : term **)
+
+let lc_list_pair_tail =
+  Abs (App ((Var (S O)), (Abs (Abs (Var (S O))))))
+
+(** val lc_list_pair_length : term **)
+
+let lc_list_pair_length =
+  App ((App ((Abs (App ((Abs (App ((Var (S (S O))), (Abs (App ((App ((Var (S
+    (S O))), (Var (S (S O))))), (Var (S O)))))))), (Abs (App ((Var (S (S
+    O))), (Abs (App ((App ((Var (S (S O))), (Var (S (S O))))), (Var (S
+    O))))))))))), (Abs (Abs (Abs (App ((App ((App ((App ((Abs (App ((App
+    ((Var (S O)), (Abs (Abs (Abs (Abs (Abs (Var (S O))))))))), (Abs (Abs (Var
+    (S (S O)))))))), (Var (S O)))), (Abs (Var (S (S (S O))))))), (Abs (App
+    ((App ((Var (S (S (S (S O))))), (App ((Abs (Abs (Abs (App ((Var (S (S
+    O))), (App ((App ((Var (S (S (S O)))), (Var (S (S O))))), (Var (S
+    O))))))))), (Var (S (S (S O)))))))), (App ((Abs (App ((Var (S O)), (Abs
+    (Abs (Var (S O))))))), (Var (S (S O)))))))))), (Abs (Var (S O)))))))))),
+    (Abs (Abs (Var (S O)))))
+
+(** val lc_list_pair_index : term **)
+
+let lc_list_pair_index =
+  Abs (Abs (App ((Abs (App ((Var (S O)), (Abs (Abs (Var (S (S O)))))))), (App
+    ((App ((Var (S (S O))), (Abs (App ((Var (S O)), (Abs (Abs (Var (S
+    O))))))))), (Var (S O)))))))
+
+(** val lc_list_pair_reverse : term **)
+
+let lc_list_pair_reverse =
+  App ((App ((Abs (App ((Abs (App ((Var (S (S O))), (Abs (App ((App ((Var (S
+    (S O))), (Var (S (S O))))), (Var (S O)))))))), (Abs (App ((Var (S (S
+    O))), (Abs (App ((App ((Var (S (S O))), (Var (S (S O))))), (Var (S
+    O))))))))))), (Abs (Abs (Abs (App ((App ((App ((App ((Abs (App ((App
+    ((Var (S O)), (Abs (Abs (Abs (Abs (Abs (Var (S O))))))))), (Abs (Abs (Var
+    (S (S O)))))))), (Var (S O)))), (Abs (Var (S (S (S O))))))), (Abs (App
+    ((App ((Var (S (S (S (S O))))), (App ((App ((Abs (Abs (Abs (App ((App
+    ((Var (S O)), (Var (S (S (S O)))))), (Var (S (S O)))))))), (App ((Abs
+    (App ((Var (S O)), (Abs (Abs (Var (S (S O)))))))), (Var (S (S O))))))),
+    (Var (S (S (S O)))))))), (App ((Abs (App ((Var (S O)), (Abs (Abs (Var (S
+    O))))))), (Var (S (S O)))))))))), (Abs (Var (S O)))))))))), (Abs (Abs
+    (Var (S O)))))
+
+(** val lc_list_pair_list : term **)
+
+let lc_list_pair_list =
+  Abs (App ((App ((App ((Var (S O)), (Abs (Abs (Abs (App ((Var (S (S (S
+    O)))), (App ((App ((Abs (Abs (Abs (App ((App ((Var (S O)), (Var (S (S (S
+    O)))))), (Var (S (S O)))))))), (Var (S O)))), (Var (S (S O)))))))))))),
+    (App ((App ((Abs (App ((Abs (App ((Var (S (S O))), (Abs (App ((App ((Var
+    (S (S O))), (Var (S (S O))))), (Var (S O)))))))), (Abs (App ((Var (S (S
+    O))), (Abs (App ((App ((Var (S (S O))), (Var (S (S O))))), (Var (S
+    O))))))))))), (Abs (Abs (Abs (App ((App ((App ((App ((Abs (App ((App
+    ((Var (S O)), (Abs (Abs (Abs (Abs (Abs (Var (S O))))))))), (Abs (Abs (Var
+    (S (S O)))))))), (Var (S O)))), (Abs (Var (S (S (S O))))))), (Abs (App
+    ((App ((Var (S (S (S (S O))))), (App ((App ((Abs (Abs (Abs (App ((App
+    ((Var (S O)), (Var (S (S (S O)))))), (Var (S (S O)))))))), (App ((Abs
+    (App ((Var (S O)), (Abs (Abs (Var (S (S O)))))))), (Var (S (S O))))))),
+    (Var (S (S (S O)))))))), (App ((Abs (App ((Var (S O)), (Abs (Abs (Var (S
+    O))))))), (Var (S (S O)))))))))), (Abs (Var (S O)))))))))), (Abs (Abs
+    (Var (S O)))))))), (Abs (Abs (Var (S O))))))
+
+(** val lc_list_pair_append : term **)
+
+let lc_list_pair_append =
+  App ((Abs (App ((Abs (App ((Var (S (S O))), (Abs (App ((App ((Var (S (S
+    O))), (Var (S (S O))))), (Var (S O)))))))), (Abs (App ((Var (S (S O))),
+    (Abs (App ((App ((Var (S (S O))), (Var (S (S O))))), (Var (S
+    O))))))))))), (Abs (Abs (Abs (App ((App ((App ((App ((Abs (App ((App
+    ((Var (S O)), (Abs (Abs (Abs (Abs (Abs (Var (S O))))))))), (Abs (Abs (Var
+    (S (S O)))))))), (Var (S (S O))))), (Abs (Var (S (S O)))))), (Abs (App
+    ((App ((Abs (Abs (Abs (App ((App ((Var (S O)), (Var (S (S (S O)))))),
+    (Var (S (S O)))))))), (App ((Abs (App ((Var (S O)), (Abs (Abs (Var (S (S
+    O)))))))), (Var (S (S (S O)))))))), (App ((App ((Var (S (S (S (S O))))),
+    (App ((Abs (App ((Var (S O)), (Abs (Abs (Var (S O))))))), (Var (S (S (S
+    O)))))))), (Var (S (S O)))))))))), (Abs (Var (S O)))))))))
+
+(** val lc_list_pair_map : term **)
+
+let lc_list_pair_map =
+  App ((Abs (App ((Abs (App ((Var (S (S O))), (Abs (App ((App ((Var (S (S
+    O))), (Var (S (S O))))), (Var (S O)))))))), (Abs (App ((Var (S (S O))),
+    (Abs (App ((App ((Var (S (S O))), (Var (S (S O))))), (Var (S
+    O))))))))))), (Abs (Abs (Abs (App ((App ((App ((App ((Abs (App ((App
+    ((Var (S O)), (Abs (Abs (Abs (Abs (Abs (Var (S O))))))))), (Abs (Abs (Var
+    (S (S O)))))))), (Var (S O)))), (Abs (Abs (Abs (Var (S O))))))), (Abs
+    (App ((App ((Abs (Abs (Abs (App ((App ((Var (S O)), (Var (S (S (S
+    O)))))), (Var (S (S O)))))))), (App ((Var (S (S (S O)))), (App ((Abs (App
+    ((Var (S O)), (Abs (Abs (Var (S (S O)))))))), (Var (S (S O))))))))), (App
+    ((App ((Var (S (S (S (S O))))), (Var (S (S (S O)))))), (App ((Abs (App
+    ((Var (S O)), (Abs (Abs (Var (S O))))))), (Var (S (S O)))))))))))), (Abs
+    (Var (S O)))))))))
+
+(** val lc_list_pair_foldl : term **)
+
+let lc_list_pair_foldl =
+  App ((Abs (App ((Abs (App ((Var (S (S O))), (Abs (App ((App ((Var (S (S
+    O))), (Var (S (S O))))), (Var (S O)))))))), (Abs (App ((Var (S (S O))),
+    (Abs (App ((App ((Var (S (S O))), (Var (S (S O))))), (Var (S
+    O))))))))))), (Abs (Abs (Abs (Abs (App ((App ((App ((App ((Abs (App ((App
+    ((Var (S O)), (Abs (Abs (Abs (Abs (Abs (Var (S O))))))))), (Abs (Abs (Var
+    (S (S O)))))))), (Var (S O)))), (Abs (Var (S (S (S O))))))), (Abs (App
+    ((App ((App ((Var (S (S (S (S (S O)))))), (Var (S (S (S (S O))))))), (App
+    ((App ((Var (S (S (S (S O))))), (Var (S (S (S O)))))), (App ((Abs (App
+    ((Var (S O)), (Abs (Abs (Var (S (S O)))))))), (Var (S (S O))))))))), (App
+    ((Abs (App ((Var (S O)), (Abs (Abs (Var (S O))))))), (Var (S (S
+    O)))))))))), (Abs (Var (S O))))))))))
+
+(** val lc_list_pair_foldr : term **)
+
+let lc_list_pair_foldr =
+  Abs (Abs (Abs (App ((App ((Abs (App ((Abs (App ((Var (S (S O))), (Abs (App
+    ((App ((Var (S (S O))), (Var (S (S O))))), (Var (S O)))))))), (Abs (App
+    ((Var (S (S O))), (Abs (App ((App ((Var (S (S O))), (Var (S (S O))))),
+    (Var (S O))))))))))), (Abs (Abs (App ((App ((App ((App ((Abs (App ((App
+    ((Var (S O)), (Abs (Abs (Abs (Abs (Abs (Var (S O))))))))), (Abs (Abs (Var
+    (S (S O)))))))), (Var (S O)))), (Abs (Var (S (S (S (S (S O))))))))), (Abs
+    (App ((App ((Var (S (S (S (S (S (S O))))))), (App ((Abs (App ((Var (S
+    O)), (Abs (Abs (Var (S (S O)))))))), (Var (S (S O))))))), (App ((Var (S
+    (S (S O)))), (App ((Abs (App ((Var (S O)), (Abs (Abs (Var (S O))))))),
+    (Var (S (S O)))))))))))), (Abs (Var (S O))))))))), (Var (S O))))))
+
+(** val lc_list_pair_filter : term **)
+
+let lc_list_pair_filter =
+  App ((Abs (App ((Abs (App ((Var (S (S O))), (Abs (App ((App ((Var (S (S
+    O))), (Var (S (S O))))), (Var (S O)))))))), (Abs (App ((Var (S (S O))),
+    (Abs (App ((App ((Var (S (S O))), (Var (S (S O))))), (Var (S
+    O))))))))))), (Abs (Abs (Abs (App ((App ((App ((App ((Abs (App ((App
+    ((Var (S O)), (Abs (Abs (Abs (Abs (Abs (Var (S O))))))))), (Abs (Abs (Var
+    (S (S O)))))))), (Var (S O)))), (Abs (Abs (Abs (Var (S O))))))), (Abs
+    (App ((App ((App ((App ((Var (S (S (S O)))), (App ((Abs (App ((Var (S
+    O)), (Abs (Abs (Var (S (S O)))))))), (Var (S (S O))))))), (App ((Abs (Abs
+    (Abs (App ((App ((Var (S O)), (Var (S (S (S O)))))), (Var (S (S
+    O)))))))), (App ((Abs (App ((Var (S O)), (Abs (Abs (Var (S (S O)))))))),
+    (Var (S (S O))))))))), (Abs (Var (S O))))), (App ((App ((Var (S (S (S (S
+    O))))), (Var (S (S (S O)))))), (App ((Abs (App ((Var (S O)), (Abs (Abs
+    (Var (S O))))))), (Var (S (S O)))))))))))), (Abs (Var (S O)))))))))
+
+(** val lc_list_pair_last : term **)
+
+let lc_list_pair_last =
+  App ((Abs (App ((Abs (App ((Var (S (S O))), (Abs (App ((App ((Var (S (S
+    O))), (Var (S (S O))))), (Var (S O)))))))), (Abs (App ((Var (S (S O))),
+    (Abs (App ((App ((Var (S (S O))), (Var (S (S O))))), (Var (S
+    O))))))))))), (Abs (Abs (App ((App ((App ((App ((Abs (App ((App ((Var (S
+    O)), (Abs (Abs (Abs (Abs (Abs (Var (S O))))))))), (Abs (Abs (Var (S (S
+    O)))))))), (Var (S O)))), (Abs (Abs (Abs (Var (S O))))))), (Abs (App
+    ((App ((App ((Abs (App ((App ((Var (S O)), (Abs (Abs (Abs (Abs (Abs (Var
+    (S O))))))))), (Abs (Abs (Var (S (S O)))))))), (App ((Abs (App ((Var (S
+    O)), (Abs (Abs (Var (S O))))))), (Var (S (S O))))))), (App ((Abs (App
+    ((Var (S O)), (Abs (Abs (Var (S (S O)))))))), (Var (S (S O))))))), (App
+    ((Var (S (S (S O)))), (App ((Abs (App ((Var (S O)), (Abs (Abs (Var (S
+    O))))))), (Var (S (S O)))))))))))), (Abs (Var (S O))))))))
+
+(** val lc_list_pair_init : term **)
+
+let lc_list_pair_init =
+  App ((Abs (App ((Abs (App ((Var (S (S O))), (Abs (App ((App ((Var (S (S
+    O))), (Var (S (S O))))), (Var (S O)))))))), (Abs (App ((Var (S (S O))),
+    (Abs (App ((App ((Var (S (S O))), (Var (S (S O))))), (Var (S
+    O))))))))))), (Abs (Abs (App ((App ((App ((App ((Abs (App ((App ((Var (S
+    O)), (Abs (Abs (Abs (Abs (Abs (Var (S O))))))))), (Abs (Abs (Var (S (S
+    O)))))))), (Var (S O)))), (Abs (Abs (Abs (Var (S O))))))), (Abs (App
+    ((App ((App ((Abs (App ((App ((Var (S O)), (Abs (Abs (Abs (Abs (Abs (Var
+    (S O))))))))), (Abs (Abs (Var (S (S O)))))))), (App ((Abs (App ((Var (S
+    O)), (Abs (Abs (Var (S O))))))), (Var (S (S O))))))), (Abs (Abs (Var (S
+    O)))))), (App ((App ((Abs (Abs (Abs (App ((App ((Var (S O)), (Var (S (S
+    (S O)))))), (Var (S (S O)))))))), (App ((Abs (App ((Var (S O)), (Abs (Abs
+    (Var (S (S O)))))))), (Var (S (S O))))))), (App ((Var (S (S (S O)))),
+    (App ((Abs (App ((Var (S O)), (Abs (Abs (Var (S O))))))), (Var (S (S
+    O)))))))))))))), (Abs (Var (S O))))))))
+
+(** val lc_list_pair_zip : term **)
+
+let lc_list_pair_zip =
+  App ((Abs (App ((Abs (App ((Var (S (S O))), (Abs (App ((App ((Var (S (S
+    O))), (Var (S (S O))))), (Var (S O)))))))), (Abs (App ((Var (S (S O))),
+    (Abs (App ((App ((Var (S (S O))), (Var (S (S O))))), (Var (S
+    O))))))))))), (Abs (Abs (Abs (App ((App ((App ((App ((Abs (App ((App
+    ((Var (S O)), (Abs (Abs (Abs (Abs (Abs (Var (S O))))))))), (Abs (Abs (Var
+    (S (S O)))))))), (Var (S (S O))))), (Abs (Abs (Abs (Var (S O))))))), (Abs
+    (App ((App ((App ((Abs (App ((App ((Var (S O)), (Abs (Abs (Abs (Abs (Abs
+    (Var (S O))))))))), (Abs (Abs (Var (S (S O)))))))), (Var (S (S O))))),
+    (Abs (Abs (Var (S O)))))), (App ((App ((Abs (Abs (Abs (App ((App ((Var (S
+    O)), (Var (S (S (S O)))))), (Var (S (S O)))))))), (App ((App ((Abs (Abs
+    (Abs (App ((App ((Var (S O)), (Var (S (S (S O)))))), (Var (S (S
+    O)))))))), (App ((Abs (App ((Var (S O)), (Abs (Abs (Var (S (S O)))))))),
+    (Var (S (S (S O)))))))), (App ((Abs (App ((Var (S O)), (Abs (Abs (Var (S
+    (S O)))))))), (Var (S (S O))))))))), (App ((App ((Var (S (S (S (S O))))),
+    (App ((Abs (App ((Var (S O)), (Abs (Abs (Var (S O))))))), (Var (S (S (S
+    O)))))))), (App ((Abs (App ((Var (S O)), (Abs (Abs (Var (S O))))))), (Var
+    (S (S O)))))))))))))), (Abs (Var (S O)))))))))
+
+(** val lc_list_pair_zip_with : term **)
+
+let lc_list_pair_zip_with =
+  App ((Abs (App ((Abs (App ((Var (S (S O))), (Abs (App ((App ((Var (S (S
+    O))), (Var (S (S O))))), (Var (S O)))))))), (Abs (App ((Var (S (S O))),
+    (Abs (App ((App ((Var (S (S O))), (Var (S (S O))))), (Var (S
+    O))))))))))), (Abs (Abs (Abs (Abs (App ((App ((App ((App ((Abs (App ((App
+    ((Var (S O)), (Abs (Abs (Abs (Abs (Abs (Var (S O))))))))), (Abs (Abs (Var
+    (S (S O)))))))), (Var (S (S O))))), (Abs (Abs (Abs (Var (S O))))))), (Abs
+    (App ((App ((App ((Abs (App ((App ((Var (S O)), (Abs (Abs (Abs (Abs (Abs
+    (Var (S O))))))))), (Abs (Abs (Var (S (S O)))))))), (Var (S (S O))))),
+    (Abs (Abs (Var (S O)))))), (App ((App ((Abs (Abs (Abs (App ((App ((Var (S
+    O)), (Var (S (S (S O)))))), (Var (S (S O)))))))), (App ((App ((Var (S (S
+    (S (S O))))), (App ((Abs (App ((Var (S O)), (Abs (Abs (Var (S (S
+    O)))))))), (Var (S (S (S O)))))))), (App ((Abs (App ((Var (S O)), (Abs
+    (Abs (Var (S (S O)))))))), (Var (S (S O))))))))), (App ((App ((App ((Var
+    (S (S (S (S (S O)))))), (Var (S (S (S (S O))))))), (App ((Abs (App ((Var
+    (S O)), (Abs (Abs (Var (S O))))))), (Var (S (S (S O)))))))), (App ((Abs
+    (App ((Var (S O)), (Abs (Abs (Var (S O))))))), (Var (S (S
+    O)))))))))))))), (Abs (Var (S O))))))))))
+
+(** val lc_list_pair_take : term **)
+
+let lc_list_pair_take =
+  App ((Abs (App ((Abs (App ((Var (S (S O))), (Abs (App ((App ((Var (S (S
+    O))), (Var (S (S O))))), (Var (S O)))))))), (Abs (App ((Var (S (S O))),
+    (Abs (App ((App ((Var (S (S O))), (Var (S (S O))))), (Var (S
+    O))))))))))), (Abs (Abs (Abs (App ((App ((App ((App ((Abs (App ((App
+    ((Var (S O)), (Abs (Abs (Abs (Abs (Abs (Var (S O))))))))), (Abs (Abs (Var
+    (S (S O)))))))), (Var (S O)))), (Abs (Abs (Abs (Var (S O))))))), (Abs
+    (App ((App ((App ((Abs (App ((App ((Var (S O)), (Abs (Abs (Abs (Var (S
+    O))))))), (Abs (Abs (Var (S (S O)))))))), (Var (S (S (S O)))))), (Abs
+    (Abs (Var (S O)))))), (App ((App ((Abs (Abs (Abs (App ((App ((Var (S O)),
+    (Var (S (S (S O)))))), (Var (S (S O)))))))), (App ((Abs (App ((Var (S
+    O)), (Abs (Abs (Var (S (S O)))))))), (Var (S (S O))))))), (App ((App
+    ((Var (S (S (S (S O))))), (App ((Abs (Abs (Abs (App ((App ((App ((Var (S
+    (S (S O)))), (Abs (Abs (App ((Var (S O)), (App ((Var (S (S O))), (Var (S
+    (S (S (S O))))))))))))), (Abs (Var (S (S O)))))), (Abs (Var (S O)))))))),
+    (Var (S (S (S O)))))))), (App ((Abs (App ((Var (S O)), (Abs (Abs (Var (S
+    O))))))), (Var (S (S O)))))))))))))), (Abs (Var (S O)))))))))
+
+(** val lc_list_pair_take_while : term **)
+
+let lc_list_pair_take_while =
+  App ((Abs (App ((Abs (App ((Var (S (S O))), (Abs (App ((App ((Var (S (S
+    O))), (Var (S (S O))))), (Var (S O)))))))), (Abs (App ((Var (S (S O))),
+    (Abs (App ((App ((Var (S (S O))), (Var (S (S O))))), (Var (S
+    O))))))))))), (Abs (Abs (Abs (App ((App ((App ((App ((Abs (App ((App
+    ((Var (S O)), (Abs (Abs (Abs (Abs (Abs (Var (S O))))))))), (Abs (Abs (Var
+    (S (S O)))))))), (Var (S O)))), (Abs (Abs (Abs (Var (S O))))))), (Abs
+    (App ((App ((App ((Var (S (S (S O)))), (App ((Abs (App ((Var (S O)), (Abs
+    (Abs (Var (S (S O)))))))), (Var (S (S O))))))), (App ((App ((Abs (Abs
+    (Abs (App ((App ((Var (S O)), (Var (S (S (S O)))))), (Var (S (S
+    O)))))))), (App ((Abs (App ((Var (S O)), (Abs (Abs (Var (S (S O)))))))),
+    (Var (S (S O))))))), (App ((App ((Var (S (S (S (S O))))), (Var (S (S (S
+    O)))))), (App ((Abs (App ((Var (S O)), (Abs (Abs (Var (S O))))))), (Var
+    (S (S O))))))))))), (Abs (Abs (Var (S O))))))))), (Abs (Var (S O)))))))))
+
+(** val lc_list_pair_drop : term **)
+
+let lc_list_pair_drop =
+  App ((Abs (App ((Abs (App ((Var (S (S O))), (Abs (App ((App ((Var (S (S
+    O))), (Var (S (S O))))), (Var (S O)))))))), (Abs (App ((Var (S (S O))),
+    (Abs (App ((App ((Var (S (S O))), (Var (S (S O))))), (Var (S
+    O))))))))))), (Abs (Abs (Abs (App ((App ((App ((App ((Abs (App ((App
+    ((Var (S O)), (Abs (Abs (Abs (Abs (Abs (Var (S O))))))))), (Abs (Abs (Var
+    (S (S O)))))))), (Var (S O)))), (Abs (Abs (Abs (Var (S O))))))), (Abs
+    (App ((App ((App ((Abs (App ((App ((Var (S O)), (Abs (Abs (Abs (Var (S
+    O))))))), (Abs (Abs (Var (S (S O)))))))), (Var (S (S (S O)))))), (Var (S
+    (S O))))), (App ((App ((Var (S (S (S (S O))))), (App ((Abs (Abs (Abs (App
+    ((App ((App ((Var (S (S (S O)))), (Abs (Abs (App ((Var (S O)), (App ((Var
+    (S (S O))), (Var (S (S (S (S O))))))))))))), (Abs (Var (S (S O)))))),
+    (Abs (Var (S O)))))))), (Var (S (S (S O)))))))), (App ((Abs (App ((Var (S
+    O)), (Abs (Abs (Var (S O))))))), (Var (S (S O)))))))))))), (Abs (Var (S
+    O)))))))))
+
+(** val lc_list_pair_drop_while : term **)
+
+let lc_list_pair_drop_while =
+  App ((Abs (App ((Abs (App ((Var (S (S O))), (Abs (App ((App ((Var (S (S
+    O))), (Var (S (S O))))), (Var (S O)))))))), (Abs (App ((Var (S (S O))),
+    (Abs (App ((App ((Var (S (S O))), (Var (S (S O))))), (Var (S
+    O))))))))))), (Abs (Abs (Abs (App ((App ((App ((App ((Abs (App ((App
+    ((Var (S O)), (Abs (Abs (Abs (Abs (Abs (Var (S O))))))))), (Abs (Abs (Var
+    (S (S O)))))))), (Var (S O)))), (Abs (Abs (Abs (Var (S O))))))), (Abs
+    (App ((App ((App ((Var (S (S (S O)))), (App ((Abs (App ((Var (S O)), (Abs
+    (Abs (Var (S (S O)))))))), (Var (S (S O))))))), (App ((App ((Var (S (S (S
+    (S O))))), (Var (S (S (S O)))))), (App ((Abs (App ((Var (S O)), (Abs (Abs
+    (Var (S O))))))), (Var (S (S O))))))))), (Var (S (S O)))))))), (Abs (Var
+    (S O)))))))))
+
+(** val lc_list_pair_replicate : term **)
+
+let lc_list_pair_replicate =
+  App ((Abs (App ((Abs (App ((Var (S (S O))), (Abs (App ((App ((Var (S (S
+    O))), (Var (S (S O))))), (Var (S O)))))))), (Abs (App ((Var (S (S O))),
+    (Abs (App ((App ((Var (S (S O))), (Var (S (S O))))), (Var (S
+    O))))))))))), (Abs (Abs (Abs (App ((App ((App ((App ((Abs (App ((App
+    ((Var (S O)), (Abs (Abs (Abs (Var (S O))))))), (Abs (Abs (Var (S (S
+    O)))))))), (Var (S (S O))))), (Abs (Abs (Abs (Var (S O))))))), (Abs (App
+    ((App ((Abs (Abs (Abs (App ((App ((Var (S O)), (Var (S (S (S O)))))),
+    (Var (S (S O)))))))), (Var (S (S O))))), (App ((App ((Var (S (S (S (S
+    O))))), (App ((Abs (Abs (Abs (App ((App ((App ((Var (S (S (S O)))), (Abs
+    (Abs (App ((Var (S O)), (App ((Var (S (S O))), (Var (S (S (S (S
+    O))))))))))))), (Abs (Var (S (S O)))))), (Abs (Var (S O)))))))), (Var (S
+    (S (S O)))))))), (Var (S (S O)))))))))), (Abs (Var (S O)))))))))
+
+(** val lc_list_church_nil : term **)
+
+let lc_list_church_nil =
+  Abs (Abs (Var (S (S O))))
+
+(** val lc_list_church_is_nil : term **)
+
+let lc_list_church_is_nil =
+  Abs (App ((App ((Var (S O)), (Abs (Abs (Var (S (S O))))))), (Abs (Abs (Abs
+    (Abs (Var (S O))))))))
+
+(** val lc_list_church_cons : term **)
+
+let lc_list_church_cons =
+  Abs (Abs (Abs (Abs (App ((App ((Var (S O)), (Var (S (S (S (S O))))))), (App
+    ((App ((App ((Abs (Var (S O))), (Var (S (S (S O)))))), (Var (S (S O))))),
+    (Var (S O)))))))))
+
+(** val lc_list_church_head : term **)
+
+let lc_list_church_head =
+  Abs (App ((App ((Var (S O)), (Var O))), (Abs (Abs (Var (S (S O)))))))
+
+(** val lc_list_church_tail : term **)
+
+let lc_list_church_tail =
+  Abs (App ((Abs (App ((Var (S O)), (Abs (Abs (Var (S (S O)))))))), (App
+    ((App ((Var (S O)), (App ((App ((Abs (Abs (Abs (App ((App ((Var (S O)),
+    (Var (S (S (S O)))))), (Var (S (S O)))))))), (Var O))), (Abs (Abs (Var (S
+    (S O))))))))), (Abs (Abs (App ((App ((Abs (Abs (Abs (App ((App ((Var (S
+    O)), (Var (S (S (S O)))))), (Var (S (S O)))))))), (App ((Abs (App ((Var
+    (S O)), (Abs (Abs (Var (S O))))))), (Var (S O)))))), (App ((App ((Abs
+    (Abs (Abs (Abs (App ((App ((Var (S O)), (Var (S (S (S (S O))))))), (App
+    ((App ((App ((Abs (Var (S O))), (Var (S (S (S O)))))), (Var (S (S O))))),
+    (Var (S O)))))))))), (Var (S (S O))))), (App ((Abs (App ((Var (S O)),
+    (Abs (Abs (Var (S O))))))), (Var (S O))))))))))))))
+
+(** val lc_list_scott_nil : term **)
+
+let lc_list_scott_nil =
+  Abs (Abs (Var (S (S O))))
+
+(** val lc_list_scott_is_nil : term **)
+
+let lc_list_scott_is_nil =
+  Abs (App ((App ((Var (S O)), (Abs (Abs (Var (S (S O))))))), (Abs (Abs (Abs
+    (Abs (Var (S O))))))))
+
+(** val lc_list_scott_cons : term **)
+
+let lc_list_scott_cons =
+  Abs (Abs (Abs (Abs (App ((App ((Var (S O)), (Var (S (S (S (S O))))))), (Var
+    (S (S (S O)))))))))
+
+(** val lc_list_scott_head : term **)
+
+let lc_list_scott_head =
+  Abs (App ((App ((Var (S O)), (Var O))), (Abs (Abs (Var (S (S O)))))))
+
+(** val lc_list_scott_tail : term **)
+
+let lc_list_scott_tail =
+  Abs (App ((App ((Var (S O)), (Var O))), (Abs (Abs (Var (S O))))))
+
+(** val lc_list_parigot_nil : term **)
+
+let lc_list_parigot_nil =
+  Abs (Abs (Var (S (S O))))
+
+(** val lc_list_parigot_is_nil : term **)
+
+let lc_list_parigot_is_nil =
+  Abs (App ((App ((Var (S O)), (Abs (Abs (Var (S (S O))))))), (Abs (Abs (Abs
+    (Abs (Abs (Var (S O)))))))))
+
+(** val lc_list_parigot_cons : term **)
+
+let lc_list_parigot_cons =
+  Abs (Abs (Abs (Abs (App ((App ((App ((Var (S O)), (Var (S (S (S (S
+    O))))))), (Var (S (S (S O)))))), (App ((App ((App ((Abs (Var (S O))),
+    (Var (S (S (S O)))))), (Var (S (S O))))), (Var (S O)))))))))
+
+(** val lc_list_parigot_head : term **)
+
+let lc_list_parigot_head =
+  Abs (App ((App ((Var (S O)), (Var O))), (Abs (Abs (Abs (Var (S (S (S
+    O)))))))))
+
+(** val lc_list_parigot_tail : term **)
+
+let lc_list_parigot_tail =
+  Abs (App ((App ((Var (S O)), (Var O))), (Abs (Abs (Abs (Var (S (S O))))))))
+
+(** val lc_num_signed_to_signed_church : term **)
+
+let lc_num_signed_to_signed_church =
+  Abs (App ((App ((Abs (Abs (Abs (App ((App ((Var (S O)), (Var (S (S (S
+    O)))))), (Var (S (S O)))))))), (Var (S O)))), (Abs (Abs (Var (S O))))))
+
+(** val lc_num_signed_simplify_church : term **)
+
+let lc_num_signed_simplify_church =
+  App ((Abs (App ((Abs (App ((Var (S (S O))), (Abs (App ((App ((Var (S (S
+    O))), (Var (S (S O))))), (Var (S O)))))))), (Abs (App ((Var (S (S O))),
+    (Abs (App ((App ((Var (S (S O))), (Var (S (S O))))), (Var (S
+    O))))))))))), (Abs (Abs (App ((App ((App ((App ((Abs (App ((App ((Var (S
+    O)), (Abs (Abs (Abs (Var (S O))))))), (Abs (Abs (Var (S (S O)))))))),
+    (App ((Abs (App ((Var (S O)), (Abs (Abs (Var (S (S O)))))))), (Var (S
+    O)))))), (Abs (Var (S (S O)))))), (Abs (App ((App ((App ((Abs (App ((App
+    ((Var (S O)), (Abs (Abs (Abs (Var (S O))))))), (Abs (Abs (Var (S (S
+    O)))))))), (App ((Abs (App ((Var (S O)), (Abs (Abs (Var (S O))))))), (Var
+    (S (S O))))))), (Var (S (S O))))), (App ((Var (S (S (S O)))), (App ((App
+    ((Abs (Abs (Abs (App ((App ((Var (S O)), (Var (S (S (S O)))))), (Var (S
+    (S O)))))))), (App ((Abs (Abs (Abs (App ((App ((App ((Var (S (S (S O)))),
+    (Abs (Abs (App ((Var (S O)), (App ((Var (S (S O))), (Var (S (S (S (S
+    O))))))))))))), (Abs (Var (S (S O)))))), (Abs (Var (S O)))))))), (App
+    ((Abs (App ((Var (S O)), (Abs (Abs (Var (S (S O)))))))), (Var (S (S
+    O))))))))), (App ((Abs (Abs (Abs (App ((App ((App ((Var (S (S (S O)))),
+    (Abs (Abs (App ((Var (S O)), (App ((Var (S (S O))), (Var (S (S (S (S
+    O))))))))))))), (Abs (Var (S (S O)))))), (Abs (Var (S O)))))))), (App
+    ((Abs (App ((Var (S O)), (Abs (Abs (Var (S O))))))), (Var (S (S
+    O)))))))))))))))), (Abs (Var (S O))))))))
+
+(** val lc_num_signed_modulus_church : term **)
+
+let lc_num_signed_modulus_church =
+  Abs (App ((Abs (App ((App ((App ((Abs (App ((App ((Var (S O)), (Abs (Abs
+    (Abs (Var (S O))))))), (Abs (Abs (Var (S (S O)))))))), (App ((Abs (App
+    ((Var (S O)), (Abs (Abs (Var (S (S O)))))))), (Var (S O)))))), (App ((Abs
+    (App ((Var (S O)), (Abs (Abs (Var (S O))))))), (Var (S O)))))), (App
+    ((Abs (App ((Var (S O)), (Abs (Abs (Var (S (S O)))))))), (Var (S
+    O))))))), (App ((App ((Abs (App ((Abs (App ((Var (S (S O))), (Abs (App
+    ((App ((Var (S (S O))), (Var (S (S O))))), (Var (S O)))))))), (Abs (App
+    ((Var (S (S O))), (Abs (App ((App ((Var (S (S O))), (Var (S (S O))))),
+    (Var (S O))))))))))), (Abs (Abs (App ((App ((App ((App ((Abs (App ((App
+    ((Var (S O)), (Abs (Abs (Abs (Var (S O))))))), (Abs (Abs (Var (S (S
+    O)))))))), (App ((Abs (App ((Var (S O)), (Abs (Abs (Var (S (S O)))))))),
+    (Var (S O)))))), (Abs (Var (S (S O)))))), (Abs (App ((App ((App ((Abs
+    (App ((App ((Var (S O)), (Abs (Abs (Abs (Var (S O))))))), (Abs (Abs (Var
+    (S (S O)))))))), (App ((Abs (App ((Var (S O)), (Abs (Abs (Var (S
+    O))))))), (Var (S (S O))))))), (Var (S (S O))))), (App ((Var (S (S (S
+    O)))), (App ((App ((Abs (Abs (Abs (App ((App ((Var (S O)), (Var (S (S (S
+    O)))))), (Var (S (S O)))))))), (App ((Abs (Abs (Abs (App ((App ((App
+    ((Var (S (S (S O)))), (Abs (Abs (App ((Var (S O)), (App ((Var (S (S O))),
+    (Var (S (S (S (S O))))))))))))), (Abs (Var (S (S O)))))), (Abs (Var (S
+    O)))))))), (App ((Abs (App ((Var (S O)), (Abs (Abs (Var (S (S O)))))))),
+    (Var (S (S O))))))))), (App ((Abs (Abs (Abs (App ((App ((App ((Var (S (S
+    (S O)))), (Abs (Abs (App ((Var (S O)), (App ((Var (S (S O))), (Var (S (S
+    (S (S O))))))))))))), (Abs (Var (S (S O)))))), (Abs (Var (S O)))))))),
+    (App ((Abs (App ((Var (S O)), (Abs (Abs (Var (S O))))))), (Var (S (S
+    O)))))))))))))))), (Abs (Var (S O))))))))), (Var (S O))))))
+
+(** val lc_num_signed_add_church : term **)
+
+let lc_num_signed_add_church =
+  Abs (Abs (App ((App ((Abs (App ((Abs (App ((Var (S (S O))), (Abs (App ((App
+    ((Var (S (S O))), (Var (S (S O))))), (Var (S O)))))))), (Abs (App ((Var
+    (S (S O))), (Abs (App ((App ((Var (S (S O))), (Var (S (S O))))), (Var (S
+    O))))))))))), (Abs (Abs (App ((App ((App ((App ((Abs (App ((App ((Var (S
+    O)), (Abs (Abs (Abs (Var (S O))))))), (Abs (Abs (Var (S (S O)))))))),
+    (App ((Abs (App ((Var (S O)), (Abs (Abs (Var (S (S O)))))))), (Var (S
+    O)))))), (Abs (Var (S (S O)))))), (Abs (App ((App ((App ((Abs (App ((App
+    ((Var (S O)), (Abs (Abs (Abs (Var (S O))))))), (Abs (Abs (Var (S (S
+    O)))))))), (App ((Abs (App ((Var (S O)), (Abs (Abs (Var (S O))))))), (Var
+    (S (S O))))))), (Var (S (S O))))), (App ((Var (S (S (S O)))), (App ((App
+    ((Abs (Abs (Abs (App ((App ((Var (S O)), (Var (S (S (S O)))))), (Var (S
+    (S O)))))))), (App ((Abs (Abs (Abs (App ((App ((App ((Var (S (S (S O)))),
+    (Abs (Abs (App ((Var (S O)), (App ((Var (S (S O))), (Var (S (S (S (S
+    O))))))))))))), (Abs (Var (S (S O)))))), (Abs (Var (S O)))))))), (App
+    ((Abs (App ((Var (S O)), (Abs (Abs (Var (S (S O)))))))), (Var (S (S
+    O))))))))), (App ((Abs (Abs (Abs (App ((App ((App ((Var (S (S (S O)))),
+    (Abs (Abs (App ((Var (S O)), (App ((Var (S (S O))), (Var (S (S (S (S
+    O))))))))))))), (Abs (Var (S (S O)))))), (Abs (Var (S O)))))))), (App
+    ((Abs (App ((Var (S O)), (Abs (Abs (Var (S O))))))), (Var (S (S
+    O)))))))))))))))), (Abs (Var (S O))))))))), (App ((App ((Abs (Abs (Abs
+    (App ((App ((Var (S O)), (Var (S (S (S O)))))), (Var (S (S O)))))))),
+    (App ((App ((Abs (Abs (App ((App ((Var (S O)), (Abs (Abs (Abs (App ((Var
+    (S (S O))), (App ((App ((Var (S (S (S O)))), (Var (S (S O))))), (Var (S
+    O))))))))))), (Var (S (S O))))))), (App ((Abs (App ((Var (S O)), (Abs
+    (Abs (Var (S (S O)))))))), (Var (S (S O))))))), (App ((Abs (App ((Var (S
+    O)), (Abs (Abs (Var (S (S O)))))))), (Var (S O)))))))), (App ((App ((Abs
+    (Abs (App ((App ((Var (S O)), (Abs (Abs (Abs (App ((Var (S (S O))), (App
+    ((App ((Var (S (S (S O)))), (Var (S (S O))))), (Var (S O))))))))))), (Var
+    (S (S O))))))), (App ((Abs (App ((Var (S O)), (Abs (Abs (Var (S O))))))),
+    (Var (S (S O))))))), (App ((Abs (App ((Var (S O)), (Abs (Abs (Var (S
+    O))))))), (Var (S O)))))))))))
+
+(** val lc_num_signed_sub_church : term **)
+
+let lc_num_signed_sub_church =
+  Abs (Abs (App ((App ((Abs (App ((Abs (App ((Var (S (S O))), (Abs (App ((App
+    ((Var (S (S O))), (Var (S (S O))))), (Var (S O)))))))), (Abs (App ((Var
+    (S (S O))), (Abs (App ((App ((Var (S (S O))), (Var (S (S O))))), (Var (S
+    O))))))))))), (Abs (Abs (App ((App ((App ((App ((Abs (App ((App ((Var (S
+    O)), (Abs (Abs (Abs (Var (S O))))))), (Abs (Abs (Var (S (S O)))))))),
+    (App ((Abs (App ((Var (S O)), (Abs (Abs (Var (S (S O)))))))), (Var (S
+    O)))))), (Abs (Var (S (S O)))))), (Abs (App ((App ((App ((Abs (App ((App
+    ((Var (S O)), (Abs (Abs (Abs (Var (S O))))))), (Abs (Abs (Var (S (S
+    O)))))))), (App ((Abs (App ((Var (S O)), (Abs (Abs (Var (S O))))))), (Var
+    (S (S O))))))), (Var (S (S O))))), (App ((Var (S (S (S O)))), (App ((App
+    ((Abs (Abs (Abs (App ((App ((Var (S O)), (Var (S (S (S O)))))), (Var (S
+    (S O)))))))), (App ((Abs (Abs (Abs (App ((App ((App ((Var (S (S (S O)))),
+    (Abs (Abs (App ((Var (S O)), (App ((Var (S (S O))), (Var (S (S (S (S
+    O))))))))))))), (Abs (Var (S (S O)))))), (Abs (Var (S O)))))))), (App
+    ((Abs (App ((Var (S O)), (Abs (Abs (Var (S (S O)))))))), (Var (S (S
+    O))))))))), (App ((Abs (Abs (Abs (App ((App ((App ((Var (S (S (S O)))),
+    (Abs (Abs (App ((Var (S O)), (App ((Var (S (S O))), (Var (S (S (S (S
+    O))))))))))))), (Abs (Var (S (S O)))))), (Abs (Var (S O)))))))), (App
+    ((Abs (App ((Var (S O)), (Abs (Abs (Var (S O))))))), (Var (S (S
+    O)))))))))))))))), (Abs (Var (S O))))))))), (App ((App ((Abs (Abs (Abs
+    (App ((App ((Var (S O)), (Var (S (S (S O)))))), (Var (S (S O)))))))),
+    (App ((App ((Abs (Abs (App ((App ((Var (S O)), (Abs (Abs (Abs (App ((Var
+    (S (S O))), (App ((App ((Var (S (S (S O)))), (Var (S (S O))))), (Var (S
+    O))))))))))), (Var (S (S O))))))), (App ((Abs (App ((Var (S O)), (Abs
+    (Abs (Var (S (S O)))))))), (Var (S (S O))))))), (App ((Abs (App ((Var (S
+    O)), (Abs (Abs (Var (S O))))))), (Var (S O)))))))), (App ((App ((Abs (Abs
+    (App ((App ((Var (S O)), (Abs (Abs (Abs (App ((Var (S (S O))), (App ((App
+    ((Var (S (S (S O)))), (Var (S (S O))))), (Var (S O))))))))))), (Var (S (S
+    O))))))), (App ((Abs (App ((Var (S O)), (Abs (Abs (Var (S O))))))), (Var
+    (S (S O))))))), (App ((Abs (App ((Var (S O)), (Abs (Abs (Var (S (S
+    O)))))))), (Var (S O)))))))))))
+
+(** val lc_num_signed_mul_church : term **)
+
+let lc_num_signed_mul_church =
+  Abs (Abs (App ((App ((Abs (App ((Abs (App ((Var (S (S O))), (Abs (App ((App
+    ((Var (S (S O))), (Var (S (S O))))), (Var (S O)))))))), (Abs (App ((Var
+    (S (S O))), (Abs (App ((App ((Var (S (S O))), (Var (S (S O))))), (Var (S
+    O))))))))))), (Abs (Abs (App ((App ((App ((App ((Abs (App ((App ((Var (S
+    O)), (Abs (Abs (Abs (Var (S O))))))), (Abs (Abs (Var (S (S O)))))))),
+    (App ((Abs (App ((Var (S O)), (Abs (Abs (Var (S (S O)))))))), (Var (S
+    O)))))), (Abs (Var (S (S O)))))), (Abs (App ((App ((App ((Abs (App ((App
+    ((Var (S O)), (Abs (Abs (Abs (Var (S O))))))), (Abs (Abs (Var (S (S
+    O)))))))), (App ((Abs (App ((Var (S O)), (Abs (Abs (Var (S O))))))), (Var
+    (S (S O))))))), (Var (S (S O))))), (App ((Var (S (S (S O)))), (App ((App
+    ((Abs (Abs (Abs (App ((App ((Var (S O)), (Var (S (S (S O)))))), (Var (S
+    (S O)))))))), (App ((Abs (Abs (Abs (App ((App ((App ((Var (S (S (S O)))),
+    (Abs (Abs (App ((Var (S O)), (App ((Var (S (S O))), (Var (S (S (S (S
+    O))))))))))))), (Abs (Var (S (S O)))))), (Abs (Var (S O)))))))), (App
+    ((Abs (App ((Var (S O)), (Abs (Abs (Var (S (S O)))))))), (Var (S (S
+    O))))))))), (App ((Abs (Abs (Abs (App ((App ((App ((Var (S (S (S O)))),
+    (Abs (Abs (App ((Var (S O)), (App ((Var (S (S O))), (Var (S (S (S (S
+    O))))))))))))), (Abs (Var (S (S O)))))), (Abs (Var (S O)))))))), (App
+    ((Abs (App ((Var (S O)), (Abs (Abs (Var (S O))))))), (Var (S (S
+    O)))))))))))))))), (Abs (Var (S O))))))))), (App ((App ((Abs (Abs (Abs
+    (App ((App ((Var (S O)), (Var (S (S (S O)))))), (Var (S (S O)))))))),
+    (App ((App ((Abs (Abs (App ((App ((Var (S O)), (Abs (Abs (Abs (App ((Var
+    (S (S O))), (App ((App ((Var (S (S (S O)))), (Var (S (S O))))), (Var (S
+    O))))))))))), (Var (S (S O))))))), (App ((App ((Abs (Abs (Abs (App ((Var
+    (S (S (S O)))), (App ((Var (S (S O))), (Var (S O))))))))), (App ((Abs
+    (App ((Var (S O)), (Abs (Abs (Var (S (S O)))))))), (Var (S (S O))))))),
+    (App ((Abs (App ((Var (S O)), (Abs (Abs (Var (S (S O)))))))), (Var (S
+    O)))))))), (App ((App ((Abs (Abs (Abs (App ((Var (S (S (S O)))), (App
+    ((Var (S (S O))), (Var (S O))))))))), (App ((Abs (App ((Var (S O)), (Abs
+    (Abs (Var (S O))))))), (Var (S (S O))))))), (App ((Abs (App ((Var (S O)),
+    (Abs (Abs (Var (S O))))))), (Var (S O)))))))))), (App ((App ((Abs (Abs
+    (App ((App ((Var (S O)), (Abs (Abs (Abs (App ((Var (S (S O))), (App ((App
+    ((Var (S (S (S O)))), (Var (S (S O))))), (Var (S O))))))))))), (Var (S (S
+    O))))))), (App ((App ((Abs (Abs (Abs (App ((Var (S (S (S O)))), (App
+    ((Var (S (S O))), (Var (S O))))))))), (App ((Abs (App ((Var (S O)), (Abs
+    (Abs (Var (S (S O)))))))), (Var (S (S O))))))), (App ((Abs (App ((Var (S
+    O)), (Abs (Abs (Var (S O))))))), (Var (S O)))))))), (App ((App ((Abs (Abs
+    (Abs (App ((Var (S (S (S O)))), (App ((Var (S (S O))), (Var (S
+    O))))))))), (App ((Abs (App ((Var (S O)), (Abs (Abs (Var (S O))))))),
+    (Var (S (S O))))))), (App ((Abs (App ((Var (S O)), (Abs (Abs (Var (S (S
+    O)))))))), (Var (S O)))))))))))))
+
+(** val lc_num_signed_to_signed_scott : term **)
+
+let lc_num_signed_to_signed_scott =
+  Abs (App ((App ((Abs (Abs (Abs (App ((App ((Var (S O)), (Var (S (S (S
+    O)))))), (Var (S (S O)))))))), (Var (S O)))), (Abs (Abs (Var (S (S
+    O)))))))
+
+(** val lc_num_signed_simplify_scott : term **)
+
+let lc_num_signed_simplify_scott =
+  App ((Abs (App ((Abs (App ((Var (S (S O))), (Abs (App ((App ((Var (S (S
+    O))), (Var (S (S O))))), (Var (S O)))))))), (Abs (App ((Var (S (S O))),
+    (Abs (App ((App ((Var (S (S O))), (Var (S (S O))))), (Var (S
+    O))))))))))), (Abs (Abs (App ((App ((App ((App ((Abs (App ((App ((Var (S
+    O)), (Abs (Abs (Var (S (S O))))))), (Abs (Abs (Abs (Var (S O)))))))),
+    (App ((Abs (App ((Var (S O)), (Abs (Abs (Var (S (S O)))))))), (Var (S
+    O)))))), (Abs (Var (S (S O)))))), (Abs (App ((App ((App ((Abs (App ((App
+    ((Var (S O)), (Abs (Abs (Var (S (S O))))))), (Abs (Abs (Abs (Var (S
+    O)))))))), (App ((Abs (App ((Var (S O)), (Abs (Abs (Var (S O))))))), (Var
+    (S (S O))))))), (Var (S (S O))))), (App ((Var (S (S (S O)))), (App ((App
+    ((Abs (Abs (Abs (App ((App ((Var (S O)), (Var (S (S (S O)))))), (Var (S
+    (S O)))))))), (App ((Abs (App ((App ((Var (S O)), (Abs (Abs (Var (S (S
+    O))))))), (Abs (Var (S O)))))), (App ((Abs (App ((Var (S O)), (Abs (Abs
+    (Var (S (S O)))))))), (Var (S (S O))))))))), (App ((Abs (App ((App ((Var
+    (S O)), (Abs (Abs (Var (S (S O))))))), (Abs (Var (S O)))))), (App ((Abs
+    (App ((Var (S O)), (Abs (Abs (Var (S O))))))), (Var (S (S
+    O)))))))))))))))), (Abs (Var (S O))))))))
+
+(** val lc_num_signed_modulus_scott : term **)
+
+let lc_num_signed_modulus_scott =
+  Abs (App ((Abs (App ((App ((App ((Abs (App ((App ((Var (S O)), (Abs (Abs
+    (Var (S (S O))))))), (Abs (Abs (Abs (Var (S O)))))))), (App ((Abs (App
+    ((Var (S O)), (Abs (Abs (Var (S (S O)))))))), (Var (S O)))))), (App ((Abs
+    (App ((Var (S O)), (Abs (Abs (Var (S O))))))), (Var (S O)))))), (App
+    ((Abs (App ((Var (S O)), (Abs (Abs (Var (S (S O)))))))), (Var (S
+    O))))))), (App ((App ((Abs (App ((Abs (App ((Var (S (S O))), (Abs (App
+    ((App ((Var (S (S O))), (Var (S (S O))))), (Var (S O)))))))), (Abs (App
+    ((Var (S (S O))), (Abs (App ((App ((Var (S (S O))), (Var (S (S O))))),
+    (Var (S O))))))))))), (Abs (Abs (App ((App ((App ((App ((Abs (App ((App
+    ((Var (S O)), (Abs (Abs (Var (S (S O))))))), (Abs (Abs (Abs (Var (S
+    O)))))))), (App ((Abs (App ((Var (S O)), (Abs (Abs (Var (S (S O)))))))),
+    (Var (S O)))))), (Abs (Var (S (S O)))))), (Abs (App ((App ((App ((Abs
+    (App ((App ((Var (S O)), (Abs (Abs (Var (S (S O))))))), (Abs (Abs (Abs
+    (Var (S O)))))))), (App ((Abs (App ((Var (S O)), (Abs (Abs (Var (S
+    O))))))), (Var (S (S O))))))), (Var (S (S O))))), (App ((Var (S (S (S
+    O)))), (App ((App ((Abs (Abs (Abs (App ((App ((Var (S O)), (Var (S (S (S
+    O)))))), (Var (S (S O)))))))), (App ((Abs (App ((App ((Var (S O)), (Abs
+    (Abs (Var (S (S O))))))), (Abs (Var (S O)))))), (App ((Abs (App ((Var (S
+    O)), (Abs (Abs (Var (S (S O)))))))), (Var (S (S O))))))))), (App ((Abs
+    (App ((App ((Var (S O)), (Abs (Abs (Var (S (S O))))))), (Abs (Var (S
+    O)))))), (App ((Abs (App ((Var (S O)), (Abs (Abs (Var (S O))))))), (Var
+    (S (S O)))))))))))))))), (Abs (Var (S O))))))))), (Var (S O))))))
+
+(** val lc_num_signed_add_scott : term **)
+
+let lc_num_signed_add_scott =
+  Abs (Abs (App ((App ((Abs (App ((Abs (App ((Var (S (S O))), (Abs (App ((App
+    ((Var (S (S O))), (Var (S (S O))))), (Var (S O)))))))), (Abs (App ((Var
+    (S (S O))), (Abs (App ((App ((Var (S (S O))), (Var (S (S O))))), (Var (S
+    O))))))))))), (Abs (Abs (App ((App ((App ((App ((Abs (App ((App ((Var (S
+    O)), (Abs (Abs (Var (S (S O))))))), (Abs (Abs (Abs (Var (S O)))))))),
+    (App ((Abs (App ((Var (S O)), (Abs (Abs (Var (S (S O)))))))), (Var (S
+    O)))))), (Abs (Var (S (S O)))))), (Abs (App ((App ((App ((Abs (App ((App
+    ((Var (S O)), (Abs (Abs (Var (S (S O))))))), (Abs (Abs (Abs (Var (S
+    O)))))))), (App ((Abs (App ((Var (S O)), (Abs (Abs (Var (S O))))))), (Var
+    (S (S O))))))), (Var (S (S O))))), (App ((Var (S (S (S O)))), (App ((App
+    ((Abs (Abs (Abs (App ((App ((Var (S O)), (Var (S (S (S O)))))), (Var (S
+    (S O)))))))), (App ((Abs (App ((App ((Var (S O)), (Abs (Abs (Var (S (S
+    O))))))), (Abs (Var (S O)))))), (App ((Abs (App ((Var (S O)), (Abs (Abs
+    (Var (S (S O)))))))), (Var (S (S O))))))))), (App ((Abs (App ((App ((Var
+    (S O)), (Abs (Abs (Var (S (S O))))))), (Abs (Var (S O)))))), (App ((Abs
+    (App ((Var (S O)), (Abs (Abs (Var (S O))))))), (Var (S (S
+    O)))))))))))))))), (Abs (Var (S O))))))))), (App ((App ((Abs (Abs (Abs
+    (App ((App ((Var (S O)), (Var (S (S (S O)))))), (Var (S (S O)))))))),
+    (App ((App ((App ((Abs (App ((Abs (App ((Var (S (S O))), (Abs (App ((App
+    ((Var (S (S O))), (Var (S (S O))))), (Var (S O)))))))), (Abs (App ((Var
+    (S (S O))), (Abs (App ((App ((Var (S (S O))), (Var (S (S O))))), (Var (S
+    O))))))))))), (Abs (Abs (Abs (App ((App ((Var (S (S O))), (Var (S O)))),
+    (Abs (App ((Abs (Abs (Abs (App ((Var (S O)), (Var (S (S (S O))))))))),
+    (App ((App ((Var (S (S (S (S O))))), (Var (S O)))), (Var (S (S
+    O))))))))))))))), (App ((Abs (App ((Var (S O)), (Abs (Abs (Var (S (S
+    O)))))))), (Var (S (S O))))))), (App ((Abs (App ((Var (S O)), (Abs (Abs
+    (Var (S (S O)))))))), (Var (S O)))))))), (App ((App ((App ((Abs (App
+    ((Abs (App ((Var (S (S O))), (Abs (App ((App ((Var (S (S O))), (Var (S (S
+    O))))), (Var (S O)))))))), (Abs (App ((Var (S (S O))), (Abs (App ((App
+    ((Var (S (S O))), (Var (S (S O))))), (Var (S O))))))))))), (Abs (Abs (Abs
+    (App ((App ((Var (S (S O))), (Var (S O)))), (Abs (App ((Abs (Abs (Abs
+    (App ((Var (S O)), (Var (S (S (S O))))))))), (App ((App ((Var (S (S (S (S
+    O))))), (Var (S O)))), (Var (S (S O))))))))))))))), (App ((Abs (App ((Var
+    (S O)), (Abs (Abs (Var (S O))))))), (Var (S (S O))))))), (App ((Abs (App
+    ((Var (S O)), (Abs (Abs (Var (S O))))))), (Var (S O)))))))))))
+
+(** val lc_num_signed_sub_scott : term **)
+
+let lc_num_signed_sub_scott =
+  Abs (Abs (App ((App ((Abs (App ((Abs (App ((Var (S (S O))), (Abs (App ((App
+    ((Var (S (S O))), (Var (S (S O))))), (Var (S O)))))))), (Abs (App ((Var
+    (S (S O))), (Abs (App ((App ((Var (S (S O))), (Var (S (S O))))), (Var (S
+    O))))))))))), (Abs (Abs (App ((App ((App ((App ((Abs (App ((App ((Var (S
+    O)), (Abs (Abs (Var (S (S O))))))), (Abs (Abs (Abs (Var (S O)))))))),
+    (App ((Abs (App ((Var (S O)), (Abs (Abs (Var (S (S O)))))))), (Var (S
+    O)))))), (Abs (Var (S (S O)))))), (Abs (App ((App ((App ((Abs (App ((App
+    ((Var (S O)), (Abs (Abs (Var (S (S O))))))), (Abs (Abs (Abs (Var (S
+    O)))))))), (App ((Abs (App ((Var (S O)), (Abs (Abs (Var (S O))))))), (Var
+    (S (S O))))))), (Var (S (S O))))), (App ((Var (S (S (S O)))), (App ((App
+    ((Abs (Abs (Abs (App ((App ((Var (S O)), (Var (S (S (S O)))))), (Var (S
+    (S O)))))))), (App ((Abs (App ((App ((Var (S O)), (Abs (Abs (Var (S (S
+    O))))))), (Abs (Var (S O)))))), (App ((Abs (App ((Var (S O)), (Abs (Abs
+    (Var (S (S O)))))))), (Var (S (S O))))))))), (App ((Abs (App ((App ((Var
+    (S O)), (Abs (Abs (Var (S (S O))))))), (Abs (Var (S O)))))), (App ((Abs
+    (App ((Var (S O)), (Abs (Abs (Var (S O))))))), (Var (S (S
+    O)))))))))))))))), (Abs (Var (S O))))))))), (App ((App ((Abs (Abs (Abs
+    (App ((App ((Var (S O)), (Var (S (S (S O)))))), (Var (S (S O)))))))),
+    (App ((App ((App ((Abs (App ((Abs (App ((Var (S (S O))), (Abs (App ((App
+    ((Var (S (S O))), (Var (S (S O))))), (Var (S O)))))))), (Abs (App ((Var
+    (S (S O))), (Abs (App ((App ((Var (S (S O))), (Var (S (S O))))), (Var (S
+    O))))))))))), (Abs (Abs (Abs (App ((App ((Var (S (S O))), (Var (S O)))),
+    (Abs (App ((Abs (Abs (Abs (App ((Var (S O)), (Var (S (S (S O))))))))),
+    (App ((App ((Var (S (S (S (S O))))), (Var (S O)))), (Var (S (S
+    O))))))))))))))), (App ((Abs (App ((Var (S O)), (Abs (Abs (Var (S (S
+    O)))))))), (Var (S (S O))))))), (App ((Abs (App ((Var (S O)), (Abs (Abs
+    (Var (S O))))))), (Var (S O)))))))), (App ((App ((App ((Abs (App ((Abs
+    (App ((Var (S (S O))), (Abs (App ((App ((Var (S (S O))), (Var (S (S
+    O))))), (Var (S O)))))))), (Abs (App ((Var (S (S O))), (Abs (App ((App
+    ((Var (S (S O))), (Var (S (S O))))), (Var (S O))))))))))), (Abs (Abs (Abs
+    (App ((App ((Var (S (S O))), (Var (S O)))), (Abs (App ((Abs (Abs (Abs
+    (App ((Var (S O)), (Var (S (S (S O))))))))), (App ((App ((Var (S (S (S (S
+    O))))), (Var (S O)))), (Var (S (S O))))))))))))))), (App ((Abs (App ((Var
+    (S O)), (Abs (Abs (Var (S O))))))), (Var (S (S O))))))), (App ((Abs (App
+    ((Var (S O)), (Abs (Abs (Var (S (S O)))))))), (Var (S O)))))))))))
+
+(** val lc_num_signed_mul_scott : term **)
+
+let lc_num_signed_mul_scott =
+  Abs (Abs (App ((App ((Abs (App ((Abs (App ((Var (S (S O))), (Abs (App ((App
+    ((Var (S (S O))), (Var (S (S O))))), (Var (S O)))))))), (Abs (App ((Var
+    (S (S O))), (Abs (App ((App ((Var (S (S O))), (Var (S (S O))))), (Var (S
+    O))))))))))), (Abs (Abs (App ((App ((App ((App ((Abs (App ((App ((Var (S
+    O)), (Abs (Abs (Var (S (S O))))))), (Abs (Abs (Abs (Var (S O)))))))),
+    (App ((Abs (App ((Var (S O)), (Abs (Abs (Var (S (S O)))))))), (Var (S
+    O)))))), (Abs (Var (S (S O)))))), (Abs (App ((App ((App ((Abs (App ((App
+    ((Var (S O)), (Abs (Abs (Var (S (S O))))))), (Abs (Abs (Abs (Var (S
+    O)))))))), (App ((Abs (App ((Var (S O)), (Abs (Abs (Var (S O))))))), (Var
+    (S (S O))))))), (Var (S (S O))))), (App ((Var (S (S (S O)))), (App ((App
+    ((Abs (Abs (Abs (App ((App ((Var (S O)), (Var (S (S (S O)))))), (Var (S
+    (S O)))))))), (App ((Abs (App ((App ((Var (S O)), (Abs (Abs (Var (S (S
+    O))))))), (Abs (Var (S O)))))), (App ((Abs (App ((Var (S O)), (Abs (Abs
+    (Var (S (S O)))))))), (Var (S (S O))))))))), (App ((Abs (App ((App ((Var
+    (S O)), (Abs (Abs (Var (S (S O))))))), (Abs (Var (S O)))))), (App ((Abs
+    (App ((Var (S O)), (Abs (Abs (Var (S O))))))), (Var (S (S
+    O)))))))))))))))), (Abs (Var (S O))))))))), (App ((App ((Abs (Abs (Abs
+    (App ((App ((Var (S O)), (Var (S (S (S O)))))), (Var (S (S O)))))))),
+    (App ((App ((App ((Abs (App ((Abs (App ((Var (S (S O))), (Abs (App ((App
+    ((Var (S (S O))), (Var (S (S O))))), (Var (S O)))))))), (Abs (App ((Var
+    (S (S O))), (Abs (App ((App ((Var (S (S O))), (Var (S (S O))))), (Var (S
+    O))))))))))), (Abs (Abs (Abs (App ((App ((Var (S (S O))), (Var (S O)))),
+    (Abs (App ((Abs (Abs (Abs (App ((Var (S O)), (Var (S (S (S O))))))))),
+    (App ((App ((Var (S (S (S (S O))))), (Var (S O)))), (Var (S (S
+    O))))))))))))))), (App ((App ((App ((Abs (App ((Abs (App ((Var (S (S
+    O))), (Abs (App ((App ((Var (S (S O))), (Var (S (S O))))), (Var (S
+    O)))))))), (Abs (App ((Var (S (S O))), (Abs (App ((App ((Var (S (S O))),
+    (Var (S (S O))))), (Var (S O))))))))))), (Abs (Abs (Abs (App ((App ((Var
+    (S (S O))), (Abs (Abs (Var (S (S O))))))), (Abs (App ((App ((App ((Abs
+    (App ((Abs (App ((Var (S (S O))), (Abs (App ((App ((Var (S (S O))), (Var
+    (S (S O))))), (Var (S O)))))))), (Abs (App ((Var (S (S O))), (Abs (App
+    ((App ((Var (S (S O))), (Var (S (S O))))), (Var (S O))))))))))), (Abs
+    (Abs (Abs (App ((App ((Var (S (S O))), (Var (S O)))), (Abs (App ((Abs
+    (Abs (Abs (App ((Var (S O)), (Var (S (S (S O))))))))), (App ((App ((Var
+    (S (S (S (S O))))), (Var (S O)))), (Var (S (S O))))))))))))))), (Var (S
+    (S O))))), (App ((App ((Var (S (S (S (S O))))), (Var (S O)))), (Var (S (S
+    O))))))))))))))), (App ((Abs (App ((Var (S O)), (Abs (Abs (Var (S (S
+    O)))))))), (Var (S (S O))))))), (App ((Abs (App ((Var (S O)), (Abs (Abs
+    (Var (S (S O)))))))), (Var (S O)))))))), (App ((App ((App ((Abs (App
+    ((Abs (App ((Var (S (S O))), (Abs (App ((App ((Var (S (S O))), (Var (S (S
+    O))))), (Var (S O)))))))), (Abs (App ((Var (S (S O))), (Abs (App ((App
+    ((Var (S (S O))), (Var (S (S O))))), (Var (S O))))))))))), (Abs (Abs (Abs
+    (App ((App ((Var (S (S O))), (Abs (Abs (Var (S (S O))))))), (Abs (App
+    ((App ((App ((Abs (App ((Abs (App ((Var (S (S O))), (Abs (App ((App ((Var
+    (S (S O))), (Var (S (S O))))), (Var (S O)))))))), (Abs (App ((Var (S (S
+    O))), (Abs (App ((App ((Var (S (S O))), (Var (S (S O))))), (Var (S
+    O))))))))))), (Abs (Abs (Abs (App ((App ((Var (S (S O))), (Var (S O)))),
+    (Abs (App ((Abs (Abs (Abs (App ((Var (S O)), (Var (S (S (S O))))))))),
+    (App ((App ((Var (S (S (S (S O))))), (Var (S O)))), (Var (S (S
+    O))))))))))))))), (Var (S (S O))))), (App ((App ((Var (S (S (S (S O))))),
+    (Var (S O)))), (Var (S (S O))))))))))))))), (App ((Abs (App ((Var (S O)),
+    (Abs (Abs (Var (S O))))))), (Var (S (S O))))))), (App ((Abs (App ((Var (S
+    O)), (Abs (Abs (Var (S O))))))), (Var (S O)))))))))), (App ((App ((App
+    ((Abs (App ((Abs (App ((Var (S (S O))), (Abs (App ((App ((Var (S (S O))),
+    (Var (S (S O))))), (Var (S O)))))))), (Abs (App ((Var (S (S O))), (Abs
+    (App ((App ((Var (S (S O))), (Var (S (S O))))), (Var (S O))))))))))),
+    (Abs (Abs (Abs (App ((App ((Var (S (S O))), (Var (S O)))), (Abs (App
+    ((Abs (Abs (Abs (App ((Var (S O)), (Var (S (S (S O))))))))), (App ((App
+    ((Var (S (S (S (S O))))), (Var (S O)))), (Var (S (S O))))))))))))))),
+    (App ((App ((App ((Abs (App ((Abs (App ((Var (S (S O))), (Abs (App ((App
+    ((Var (S (S O))), (Var (S (S O))))), (Var (S O)))))))), (Abs (App ((Var
+    (S (S O))), (Abs (App ((App ((Var (S (S O))), (Var (S (S O))))), (Var (S
+    O))))))))))), (Abs (Abs (Abs (App ((App ((Var (S (S O))), (Abs (Abs (Var
+    (S (S O))))))), (Abs (App ((App ((App ((Abs (App ((Abs (App ((Var (S (S
+    O))), (Abs (App ((App ((Var (S (S O))), (Var (S (S O))))), (Var (S
+    O)))))))), (Abs (App ((Var (S (S O))), (Abs (App ((App ((Var (S (S O))),
+    (Var (S (S O))))), (Var (S O))))))))))), (Abs (Abs (Abs (App ((App ((Var
+    (S (S O))), (Var (S O)))), (Abs (App ((Abs (Abs (Abs (App ((Var (S O)),
+    (Var (S (S (S O))))))))), (App ((App ((Var (S (S (S (S O))))), (Var (S
+    O)))), (Var (S (S O))))))))))))))), (Var (S (S O))))), (App ((App ((Var
+    (S (S (S (S O))))), (Var (S O)))), (Var (S (S O))))))))))))))), (App
+    ((Abs (App ((Var (S O)), (Abs (Abs (Var (S (S O)))))))), (Var (S (S
+    O))))))), (App ((Abs (App ((Var (S O)), (Abs (Abs (Var (S O))))))), (Var
+    (S O)))))))), (App ((App ((App ((Abs (App ((Abs (App ((Var (S (S O))),
+    (Abs (App ((App ((Var (S (S O))), (Var (S (S O))))), (Var (S O)))))))),
+    (Abs (App ((Var (S (S O))), (Abs (App ((App ((Var (S (S O))), (Var (S (S
+    O))))), (Var (S O))))))))))), (Abs (Abs (Abs (App ((App ((Var (S (S O))),
+    (Abs (Abs (Var (S (S O))))))), (Abs (App ((App ((App ((Abs (App ((Abs
+    (App ((Var (S (S O))), (Abs (App ((App ((Var (S (S O))), (Var (S (S
+    O))))), (Var (S O)))))))), (Abs (App ((Var (S (S O))), (Abs (App ((App
+    ((Var (S (S O))), (Var (S (S O))))), (Var (S O))))))))))), (Abs (Abs (Abs
+    (App ((App ((Var (S (S O))), (Var (S O)))), (Abs (App ((Abs (Abs (Abs
+    (App ((Var (S O)), (Var (S (S (S O))))))))), (App ((App ((Var (S (S (S (S
+    O))))), (Var (S O)))), (Var (S (S O))))))))))))))), (Var (S (S O))))),
+    (App ((App ((Var (S (S (S (S O))))), (Var (S O)))), (Var (S (S
+    O))))))))))))))), (App ((Abs (App ((Var (S O)), (Abs (Abs (Var (S
+    O))))))), (Var (S (S O))))))), (App ((Abs (App ((Var (S O)), (Abs (Abs
+    (Var (S (S O)))))))), (Var (S O)))))))))))))
+
+(** val lc_num_signed_to_signed_parigot : term **)
+
+let lc_num_signed_to_signed_parigot =
+  Abs (App ((App ((Abs (Abs (Abs (App ((App ((Var (S O)), (Var (S (S (S
+    O)))))), (Var (S (S O)))))))), (Var (S O)))), (Abs (Abs (Var (S O))))))
+
+(** val lc_num_signed_simplify_parigot : term **)
+
+let lc_num_signed_simplify_parigot =
+  App ((Abs (App ((Abs (App ((Var (S (S O))), (Abs (App ((App ((Var (S (S
+    O))), (Var (S (S O))))), (Var (S O)))))))), (Abs (App ((Var (S (S O))),
+    (Abs (App ((App ((Var (S (S O))), (Var (S (S O))))), (Var (S
+    O))))))))))), (Abs (Abs (App ((App ((App ((App ((Abs (App ((App ((Var (S
+    O)), (Abs (Abs (Abs (Abs (Var (S O)))))))), (Abs (Abs (Var (S (S
+    O)))))))), (App ((Abs (App ((Var (S O)), (Abs (Abs (Var (S (S O)))))))),
+    (Var (S O)))))), (Abs (Var (S (S O)))))), (Abs (App ((App ((App ((Abs
+    (App ((App ((Var (S O)), (Abs (Abs (Abs (Abs (Var (S O)))))))), (Abs (Abs
+    (Var (S (S O)))))))), (App ((Abs (App ((Var (S O)), (Abs (Abs (Var (S
+    O))))))), (Var (S (S O))))))), (Var (S (S O))))), (App ((Var (S (S (S
+    O)))), (App ((App ((Abs (Abs (Abs (App ((App ((Var (S O)), (Var (S (S (S
+    O)))))), (Var (S (S O)))))))), (App ((Abs (App ((App ((Var (S O)), (Abs
+    (Abs (Var (S (S O))))))), (Abs (Abs (Var (S O))))))), (App ((Abs (App
+    ((Var (S O)), (Abs (Abs (Var (S (S O)))))))), (Var (S (S O))))))))), (App
+    ((Abs (App ((App ((Var (S O)), (Abs (Abs (Var (S (S O))))))), (Abs (Abs
+    (Var (S O))))))), (App ((Abs (App ((Var (S O)), (Abs (Abs (Var (S
+    O))))))), (Var (S (S O)))))))))))))))), (Abs (Var (S O))))))))
+
+(** val lc_num_signed_modulus_parigot : term **)
+
+let lc_num_signed_modulus_parigot =
+  Abs (App ((Abs (App ((App ((App ((Abs (App ((App ((Var (S O)), (Abs (Abs
+    (Abs (Abs (Var (S O)))))))), (Abs (Abs (Var (S (S O)))))))), (App ((Abs
+    (App ((Var (S O)), (Abs (Abs (Var (S (S O)))))))), (Var (S O)))))), (App
+    ((Abs (App ((Var (S O)), (Abs (Abs (Var (S O))))))), (Var (S O)))))),
+    (App ((Abs (App ((Var (S O)), (Abs (Abs (Var (S (S O)))))))), (Var (S
+    O))))))), (App ((App ((Abs (App ((Abs (App ((Var (S (S O))), (Abs (App
+    ((App ((Var (S (S O))), (Var (S (S O))))), (Var (S O)))))))), (Abs (App
+    ((Var (S (S O))), (Abs (App ((App ((Var (S (S O))), (Var (S (S O))))),
+    (Var (S O))))))))))), (Abs (Abs (App ((App ((App ((App ((Abs (App ((App
+    ((Var (S O)), (Abs (Abs (Abs (Abs (Var (S O)))))))), (Abs (Abs (Var (S (S
+    O)))))))), (App ((Abs (App ((Var (S O)), (Abs (Abs (Var (S (S O)))))))),
+    (Var (S O)))))), (Abs (Var (S (S O)))))), (Abs (App ((App ((App ((Abs
+    (App ((App ((Var (S O)), (Abs (Abs (Abs (Abs (Var (S O)))))))), (Abs (Abs
+    (Var (S (S O)))))))), (App ((Abs (App ((Var (S O)), (Abs (Abs (Var (S
+    O))))))), (Var (S (S O))))))), (Var (S (S O))))), (App ((Var (S (S (S
+    O)))), (App ((App ((Abs (Abs (Abs (App ((App ((Var (S O)), (Var (S (S (S
+    O)))))), (Var (S (S O)))))))), (App ((Abs (App ((App ((Var (S O)), (Abs
+    (Abs (Var (S (S O))))))), (Abs (Abs (Var (S O))))))), (App ((Abs (App
+    ((Var (S O)), (Abs (Abs (Var (S (S O)))))))), (Var (S (S O))))))))), (App
+    ((Abs (App ((App ((Var (S O)), (Abs (Abs (Var (S (S O))))))), (Abs (Abs
+    (Var (S O))))))), (App ((Abs (App ((Var (S O)), (Abs (Abs (Var (S
+    O))))))), (Var (S (S O)))))))))))))))), (Abs (Var (S O))))))))), (Var (S
+    O))))))
+
+(** val lc_num_signed_add_parigot : term **)
+
+let lc_num_signed_add_parigot =
+  Abs (Abs (App ((App ((Abs (App ((Abs (App ((Var (S (S O))), (Abs (App ((App
+    ((Var (S (S O))), (Var (S (S O))))), (Var (S O)))))))), (Abs (App ((Var
+    (S (S O))), (Abs (App ((App ((Var (S (S O))), (Var (S (S O))))), (Var (S
+    O))))))))))), (Abs (Abs (App ((App ((App ((App ((Abs (App ((App ((Var (S
+    O)), (Abs (Abs (Abs (Abs (Var (S O)))))))), (Abs (Abs (Var (S (S
+    O)))))))), (App ((Abs (App ((Var (S O)), (Abs (Abs (Var (S (S O)))))))),
+    (Var (S O)))))), (Abs (Var (S (S O)))))), (Abs (App ((App ((App ((Abs
+    (App ((App ((Var (S O)), (Abs (Abs (Abs (Abs (Var (S O)))))))), (Abs (Abs
+    (Var (S (S O)))))))), (App ((Abs (App ((Var (S O)), (Abs (Abs (Var (S
+    O))))))), (Var (S (S O))))))), (Var (S (S O))))), (App ((Var (S (S (S
+    O)))), (App ((App ((Abs (Abs (Abs (App ((App ((Var (S O)), (Var (S (S (S
+    O)))))), (Var (S (S O)))))))), (App ((Abs (App ((App ((Var (S O)), (Abs
+    (Abs (Var (S (S O))))))), (Abs (Abs (Var (S O))))))), (App ((Abs (App
+    ((Var (S O)), (Abs (Abs (Var (S (S O)))))))), (Var (S (S O))))))))), (App
+    ((Abs (App ((App ((Var (S O)), (Abs (Abs (Var (S (S O))))))), (Abs (Abs
+    (Var (S O))))))), (App ((Abs (App ((Var (S O)), (Abs (Abs (Var (S
+    O))))))), (Var (S (S O)))))))))))))))), (Abs (Var (S O))))))))), (App
+    ((App ((Abs (Abs (Abs (App ((App ((Var (S O)), (Var (S (S (S O)))))),
+    (Var (S (S O)))))))), (App ((App ((Abs (Abs (App ((App ((Var (S (S O))),
+    (Abs (Abs (Abs (Abs (App ((App ((Var (S (S O))), (Var (S (S (S O)))))),
+    (App ((App ((Var (S (S (S O)))), (Var (S (S O))))), (Var (S
+    O)))))))))))), (Var (S O)))))), (App ((Abs (App ((Var (S O)), (Abs (Abs
+    (Var (S (S O)))))))), (Var (S (S O))))))), (App ((Abs (App ((Var (S O)),
+    (Abs (Abs (Var (S (S O)))))))), (Var (S O)))))))), (App ((App ((Abs (Abs
+    (App ((App ((Var (S (S O))), (Abs (Abs (Abs (Abs (App ((App ((Var (S (S
+    O))), (Var (S (S (S O)))))), (App ((App ((Var (S (S (S O)))), (Var (S (S
+    O))))), (Var (S O)))))))))))), (Var (S O)))))), (App ((Abs (App ((Var (S
+    O)), (Abs (Abs (Var (S O))))))), (Var (S (S O))))))), (App ((Abs (App
+    ((Var (S O)), (Abs (Abs (Var (S O))))))), (Var (S O)))))))))))
+
+(** val lc_num_signed_sub_parigot : term **)
+
+let lc_num_signed_sub_parigot =
+  Abs (Abs (App ((App ((Abs (App ((Abs (App ((Var (S (S O))), (Abs (App ((App
+    ((Var (S (S O))), (Var (S (S O))))), (Var (S O)))))))), (Abs (App ((Var
+    (S (S O))), (Abs (App ((App ((Var (S (S O))), (Var (S (S O))))), (Var (S
+    O))))))))))), (Abs (Abs (App ((App ((App ((App ((Abs (App ((App ((Var (S
+    O)), (Abs (Abs (Abs (Abs (Var (S O)))))))), (Abs (Abs (Var (S (S
+    O)))))))), (App ((Abs (App ((Var (S O)), (Abs (Abs (Var (S (S O)))))))),
+    (Var (S O)))))), (Abs (Var (S (S O)))))), (Abs (App ((App ((App ((Abs
+    (App ((App ((Var (S O)), (Abs (Abs (Abs (Abs (Var (S O)))))))), (Abs (Abs
+    (Var (S (S O)))))))), (App ((Abs (App ((Var (S O)), (Abs (Abs (Var (S
+    O))))))), (Var (S (S O))))))), (Var (S (S O))))), (App ((Var (S (S (S
+    O)))), (App ((App ((Abs (Abs (Abs (App ((App ((Var (S O)), (Var (S (S (S
+    O)))))), (Var (S (S O)))))))), (App ((Abs (App ((App ((Var (S O)), (Abs
+    (Abs (Var (S (S O))))))), (Abs (Abs (Var (S O))))))), (App ((Abs (App
+    ((Var (S O)), (Abs (Abs (Var (S (S O)))))))), (Var (S (S O))))))))), (App
+    ((Abs (App ((App ((Var (S O)), (Abs (Abs (Var (S (S O))))))), (Abs (Abs
+    (Var (S O))))))), (App ((Abs (App ((Var (S O)), (Abs (Abs (Var (S
+    O))))))), (Var (S (S O)))))))))))))))), (Abs (Var (S O))))))))), (App
+    ((App ((Abs (Abs (Abs (App ((App ((Var (S O)), (Var (S (S (S O)))))),
+    (Var (S (S O)))))))), (App ((App ((Abs (Abs (App ((App ((Var (S (S O))),
+    (Abs (Abs (Abs (Abs (App ((App ((Var (S (S O))), (Var (S (S (S O)))))),
+    (App ((App ((Var (S (S (S O)))), (Var (S (S O))))), (Var (S
+    O)))))))))))), (Var (S O)))))), (App ((Abs (App ((Var (S O)), (Abs (Abs
+    (Var (S (S O)))))))), (Var (S (S O))))))), (App ((Abs (App ((Var (S O)),
+    (Abs (Abs (Var (S O))))))), (Var (S O)))))))), (App ((App ((Abs (Abs (App
+    ((App ((Var (S (S O))), (Abs (Abs (Abs (Abs (App ((App ((Var (S (S O))),
+    (Var (S (S (S O)))))), (App ((App ((Var (S (S (S O)))), (Var (S (S
+    O))))), (Var (S O)))))))))))), (Var (S O)))))), (App ((Abs (App ((Var (S
+    O)), (Abs (Abs (Var (S O))))))), (Var (S (S O))))))), (App ((Abs (App
+    ((Var (S O)), (Abs (Abs (Var (S (S O)))))))), (Var (S O)))))))))))
+
+(** val lc_num_signed_mul_parigot : term **)
+
+let lc_num_signed_mul_parigot =
+  Abs (Abs (App ((App ((Abs (App ((Abs (App ((Var (S (S O))), (Abs (App ((App
+    ((Var (S (S O))), (Var (S (S O))))), (Var (S O)))))))), (Abs (App ((Var
+    (S (S O))), (Abs (App ((App ((Var (S (S O))), (Var (S (S O))))), (Var (S
+    O))))))))))), (Abs (Abs (App ((App ((App ((App ((Abs (App ((App ((Var (S
+    O)), (Abs (Abs (Abs (Abs (Var (S O)))))))), (Abs (Abs (Var (S (S
+    O)))))))), (App ((Abs (App ((Var (S O)), (Abs (Abs (Var (S (S O)))))))),
+    (Var (S O)))))), (Abs (Var (S (S O)))))), (Abs (App ((App ((App ((Abs
+    (App ((App ((Var (S O)), (Abs (Abs (Abs (Abs (Var (S O)))))))), (Abs (Abs
+    (Var (S (S O)))))))), (App ((Abs (App ((Var (S O)), (Abs (Abs (Var (S
+    O))))))), (Var (S (S O))))))), (Var (S (S O))))), (App ((Var (S (S (S
+    O)))), (App ((App ((Abs (Abs (Abs (App ((App ((Var (S O)), (Var (S (S (S
+    O)))))), (Var (S (S O)))))))), (App ((Abs (App ((App ((Var (S O)), (Abs
+    (Abs (Var (S (S O))))))), (Abs (Abs (Var (S O))))))), (App ((Abs (App
+    ((Var (S O)), (Abs (Abs (Var (S (S O)))))))), (Var (S (S O))))))))), (App
+    ((Abs (App ((App ((Var (S O)), (Abs (Abs (Var (S (S O))))))), (Abs (Abs
+    (Var (S O))))))), (App ((Abs (App ((Var (S O)), (Abs (Abs (Var (S
+    O))))))), (Var (S (S O)))))))))))))))), (Abs (Var (S O))))))))), (App
+    ((App ((Abs (Abs (Abs (App ((App ((Var (S O)), (Var (S (S (S O)))))),
+    (Var (S (S O)))))))), (App ((App ((Abs (Abs (App ((App ((Var (S (S O))),
+    (Abs (Abs (Abs (Abs (App ((App ((Var (S (S O))), (Var (S (S (S O)))))),
+    (App ((App ((Var (S (S (S O)))), (Var (S (S O))))), (Var (S
+    O)))))))))))), (Var (S O)))))), (App ((App ((Abs (Abs (App ((App ((Var (S
+    (S O))), (Abs (App ((Abs (Abs (App ((App ((Var (S (S O))), (Abs (Abs (Abs
+    (Abs (App ((App ((Var (S (S O))), (Var (S (S (S O)))))), (App ((App ((Var
+    (S (S (S O)))), (Var (S (S O))))), (Var (S O)))))))))))), (Var (S
+    O)))))), (Var (S (S O)))))))), (Abs (Abs (Var (S O)))))))), (App ((Abs
+    (App ((Var (S O)), (Abs (Abs (Var (S (S O)))))))), (Var (S (S O))))))),
+    (App ((Abs (App ((Var (S O)), (Abs (Abs (Var (S (S O)))))))), (Var (S
+    O)))))))), (App ((App ((Abs (Abs (App ((App ((Var (S (S O))), (Abs (App
+    ((Abs (Abs (App ((App ((Var (S (S O))), (Abs (Abs (Abs (Abs (App ((App
+    ((Var (S (S O))), (Var (S (S (S O)))))), (App ((App ((Var (S (S (S O)))),
+    (Var (S (S O))))), (Var (S O)))))))))))), (Var (S O)))))), (Var (S (S
+    O)))))))), (Abs (Abs (Var (S O)))))))), (App ((Abs (App ((Var (S O)),
+    (Abs (Abs (Var (S O))))))), (Var (S (S O))))))), (App ((Abs (App ((Var (S
+    O)), (Abs (Abs (Var (S O))))))), (Var (S O)))))))))), (App ((App ((Abs
+    (Abs (App ((App ((Var (S (S O))), (Abs (Abs (Abs (Abs (App ((App ((Var (S
+    (S O))), (Var (S (S (S O)))))), (App ((App ((Var (S (S (S O)))), (Var (S
+    (S O))))), (Var (S O)))))))))))), (Var (S O)))))), (App ((App ((Abs (Abs
+    (App ((App ((Var (S (S O))), (Abs (App ((Abs (Abs (App ((App ((Var (S (S
+    O))), (Abs (Abs (Abs (Abs (App ((App ((Var (S (S O))), (Var (S (S (S
+    O)))))), (App ((App ((Var (S (S (S O)))), (Var (S (S O))))), (Var (S
+    O)))))))))))), (Var (S O)))))), (Var (S (S O)))))))), (Abs (Abs (Var (S
+    O)))))))), (App ((Abs (App ((Var (S O)), (Abs (Abs (Var (S (S O)))))))),
+    (Var (S (S O))))))), (App ((Abs (App ((Var (S O)), (Abs (Abs (Var (S
+    O))))))), (Var (S O)))))))), (App ((App ((Abs (Abs (App ((App ((Var (S (S
+    O))), (Abs (App ((Abs (Abs (App ((App ((Var (S (S O))), (Abs (Abs (Abs
+    (Abs (App ((App ((Var (S (S O))), (Var (S (S (S O)))))), (App ((App ((Var
+    (S (S (S O)))), (Var (S (S O))))), (Var (S O)))))))))))), (Var (S
+    O)))))), (Var (S (S O)))))))), (Abs (Abs (Var (S O)))))))), (App ((Abs
+    (App ((Var (S O)), (Abs (Abs (Var (S O))))))), (Var (S (S O))))))), (App
+    ((Abs (App ((Var (S O)), (Abs (Abs (Var (S (S O)))))))), (Var (S
+    O)))))))))))))
+
+(** val lc_num_signed_to_signed_stumpfu : term **)
+
+let lc_num_signed_to_signed_stumpfu =
+  Abs (App ((App ((Abs (Abs (Abs (App ((App ((Var (S O)), (Var (S (S (S
+    O)))))), (Var (S (S O)))))))), (Var (S O)))), (Abs (Abs (Var (S O))))))
+
+(** val lc_num_signed_simplify_stumpfu : term **)
+
+let lc_num_signed_simplify_stumpfu =
+  App ((Abs (App ((Abs (App ((Var (S (S O))), (Abs (App ((App ((Var (S (S
+    O))), (Var (S (S O))))), (Var (S O)))))))), (Abs (App ((Var (S (S O))),
+    (Abs (App ((App ((Var (S (S O))), (Var (S (S O))))), (Var (S
+    O))))))))))), (Abs (Abs (App ((App ((App ((App ((Abs (App ((App ((Var (S
+    O)), (Abs (Abs (Abs (Abs (Var (S O)))))))), (Abs (Abs (Var (S (S
+    O)))))))), (App ((Abs (App ((Var (S O)), (Abs (Abs (Var (S (S O)))))))),
+    (Var (S O)))))), (Abs (Var (S (S O)))))), (Abs (App ((App ((App ((Abs
+    (App ((App ((Var (S O)), (Abs (Abs (Abs (Abs (Var (S O)))))))), (Abs (Abs
+    (Var (S (S O)))))))), (App ((Abs (App ((Var (S O)), (Abs (Abs (Var (S
+    O))))))), (Var (S (S O))))))), (Var (S (S O))))), (App ((Var (S (S (S
+    O)))), (App ((App ((Abs (Abs (Abs (App ((App ((Var (S O)), (Var (S (S (S
+    O)))))), (Var (S (S O)))))))), (App ((Abs (App ((App ((Var (S O)), (Abs
+    (Abs (Var (S O)))))), (Abs (Abs (Var (S O))))))), (App ((Abs (App ((Var
+    (S O)), (Abs (Abs (Var (S (S O)))))))), (Var (S (S O))))))))), (App ((Abs
+    (App ((App ((Var (S O)), (Abs (Abs (Var (S O)))))), (Abs (Abs (Var (S
+    O))))))), (App ((Abs (App ((Var (S O)), (Abs (Abs (Var (S O))))))), (Var
+    (S (S O)))))))))))))))), (Abs (Var (S O))))))))
+
+(** val lc_num_signed_modulus_stumpfu : term **)
+
+let lc_num_signed_modulus_stumpfu =
+  Abs (App ((Abs (App ((App ((App ((Abs (App ((App ((Var (S O)), (Abs (Abs
+    (Abs (Abs (Var (S O)))))))), (Abs (Abs (Var (S (S O)))))))), (App ((Abs
+    (App ((Var (S O)), (Abs (Abs (Var (S (S O)))))))), (Var (S O)))))), (App
+    ((Abs (App ((Var (S O)), (Abs (Abs (Var (S O))))))), (Var (S O)))))),
+    (App ((Abs (App ((Var (S O)), (Abs (Abs (Var (S (S O)))))))), (Var (S
+    O))))))), (App ((App ((Abs (App ((Abs (App ((Var (S (S O))), (Abs (App
+    ((App ((Var (S (S O))), (Var (S (S O))))), (Var (S O)))))))), (Abs (App
+    ((Var (S (S O))), (Abs (App ((App ((Var (S (S O))), (Var (S (S O))))),
+    (Var (S O))))))))))), (Abs (Abs (App ((App ((App ((App ((Abs (App ((App
+    ((Var (S O)), (Abs (Abs (Abs (Abs (Var (S O)))))))), (Abs (Abs (Var (S (S
+    O)))))))), (App ((Abs (App ((Var (S O)), (Abs (Abs (Var (S (S O)))))))),
+    (Var (S O)))))), (Abs (Var (S (S O)))))), (Abs (App ((App ((App ((Abs
+    (App ((App ((Var (S O)), (Abs (Abs (Abs (Abs (Var (S O)))))))), (Abs (Abs
+    (Var (S (S O)))))))), (App ((Abs (App ((Var (S O)), (Abs (Abs (Var (S
+    O))))))), (Var (S (S O))))))), (Var (S (S O))))), (App ((Var (S (S (S
+    O)))), (App ((App ((Abs (Abs (Abs (App ((App ((Var (S O)), (Var (S (S (S
+    O)))))), (Var (S (S O)))))))), (App ((Abs (App ((App ((Var (S O)), (Abs
+    (Abs (Var (S O)))))), (Abs (Abs (Var (S O))))))), (App ((Abs (App ((Var
+    (S O)), (Abs (Abs (Var (S (S O)))))))), (Var (S (S O))))))))), (App ((Abs
+    (App ((App ((Var (S O)), (Abs (Abs (Var (S O)))))), (Abs (Abs (Var (S
+    O))))))), (App ((Abs (App ((Var (S O)), (Abs (Abs (Var (S O))))))), (Var
+    (S (S O)))))))))))))))), (Abs (Var (S O))))))))), (Var (S O))))))
+
+(** val lc_num_signed_add_stumpfu : term **)
+
+let lc_num_signed_add_stumpfu =
+  Abs (Abs (App ((App ((Abs (App ((Abs (App ((Var (S (S O))), (Abs (App ((App
+    ((Var (S (S O))), (Var (S (S O))))), (Var (S O)))))))), (Abs (App ((Var
+    (S (S O))), (Abs (App ((App ((Var (S (S O))), (Var (S (S O))))), (Var (S
+    O))))))))))), (Abs (Abs (App ((App ((App ((App ((Abs (App ((App ((Var (S
+    O)), (Abs (Abs (Abs (Abs (Var (S O)))))))), (Abs (Abs (Var (S (S
+    O)))))))), (App ((Abs (App ((Var (S O)), (Abs (Abs (Var (S (S O)))))))),
+    (Var (S O)))))), (Abs (Var (S (S O)))))), (Abs (App ((App ((App ((Abs
+    (App ((App ((Var (S O)), (Abs (Abs (Abs (Abs (Var (S O)))))))), (Abs (Abs
+    (Var (S (S O)))))))), (App ((Abs (App ((Var (S O)), (Abs (Abs (Var (S
+    O))))))), (Var (S (S O))))))), (Var (S (S O))))), (App ((Var (S (S (S
+    O)))), (App ((App ((Abs (Abs (Abs (App ((App ((Var (S O)), (Var (S (S (S
+    O)))))), (Var (S (S O)))))))), (App ((Abs (App ((App ((Var (S O)), (Abs
+    (Abs (Var (S O)))))), (Abs (Abs (Var (S O))))))), (App ((Abs (App ((Var
+    (S O)), (Abs (Abs (Var (S (S O)))))))), (Var (S (S O))))))))), (App ((Abs
+    (App ((App ((Var (S O)), (Abs (Abs (Var (S O)))))), (Abs (Abs (Var (S
+    O))))))), (App ((Abs (App ((Var (S O)), (Abs (Abs (Var (S O))))))), (Var
+    (S (S O)))))))))))))))), (Abs (Var (S O))))))))), (App ((App ((Abs (Abs
+    (Abs (App ((App ((Var (S O)), (Var (S (S (S O)))))), (Var (S (S
+    O)))))))), (App ((App ((Abs (Abs (App ((App ((Var (S (S O))), (Abs (Abs
+    (App ((App ((Var (S (S O))), (Abs (App ((App ((Var (S O)), (Abs (Abs (Abs
+    (Abs (App ((App ((Var (S (S O))), (App ((Abs (Abs (Abs (App ((Var (S (S
+    O))), (App ((App ((Var (S (S (S O)))), (Var (S (S O))))), (Var (S
+    O))))))))), (Var (S (S (S (S O))))))))), (Var (S (S (S (S (S
+    O)))))))))))))), (Abs (Abs (App ((App ((Var (S (S O))), (Abs (Abs (App
+    ((Var (S (S O))), (Var (S O)))))))), (Abs (Abs (Var (S O))))))))))))),
+    (Var (S (S (S O)))))))))), (Var (S O)))))), (App ((Abs (App ((Var (S O)),
+    (Abs (Abs (Var (S (S O)))))))), (Var (S (S O))))))), (App ((Abs (App
+    ((Var (S O)), (Abs (Abs (Var (S (S O)))))))), (Var (S O)))))))), (App
+    ((App ((Abs (Abs (App ((App ((Var (S (S O))), (Abs (Abs (App ((App ((Var
+    (S (S O))), (Abs (App ((App ((Var (S O)), (Abs (Abs (Abs (Abs (App ((App
+    ((Var (S (S O))), (App ((Abs (Abs (Abs (App ((Var (S (S O))), (App ((App
+    ((Var (S (S (S O)))), (Var (S (S O))))), (Var (S O))))))))), (Var (S (S
+    (S (S O))))))))), (Var (S (S (S (S (S O)))))))))))))), (Abs (Abs (App
+    ((App ((Var (S (S O))), (Abs (Abs (App ((Var (S (S O))), (Var (S
+    O)))))))), (Abs (Abs (Var (S O))))))))))))), (Var (S (S (S O)))))))))),
+    (Var (S O)))))), (App ((Abs (App ((Var (S O)), (Abs (Abs (Var (S
+    O))))))), (Var (S (S O))))))), (App ((Abs (App ((Var (S O)), (Abs (Abs
+    (Var (S O))))))), (Var (S O)))))))))))
+
+(** val lc_num_signed_sub_stumpfu : term **)
+
+let lc_num_signed_sub_stumpfu =
+  Abs (Abs (App ((App ((Abs (App ((Abs (App ((Var (S (S O))), (Abs (App ((App
+    ((Var (S (S O))), (Var (S (S O))))), (Var (S O)))))))), (Abs (App ((Var
+    (S (S O))), (Abs (App ((App ((Var (S (S O))), (Var (S (S O))))), (Var (S
+    O))))))))))), (Abs (Abs (App ((App ((App ((App ((Abs (App ((App ((Var (S
+    O)), (Abs (Abs (Abs (Abs (Var (S O)))))))), (Abs (Abs (Var (S (S
+    O)))))))), (App ((Abs (App ((Var (S O)), (Abs (Abs (Var (S (S O)))))))),
+    (Var (S O)))))), (Abs (Var (S (S O)))))), (Abs (App ((App ((App ((Abs
+    (App ((App ((Var (S O)), (Abs (Abs (Abs (Abs (Var (S O)))))))), (Abs (Abs
+    (Var (S (S O)))))))), (App ((Abs (App ((Var (S O)), (Abs (Abs (Var (S
+    O))))))), (Var (S (S O))))))), (Var (S (S O))))), (App ((Var (S (S (S
+    O)))), (App ((App ((Abs (Abs (Abs (App ((App ((Var (S O)), (Var (S (S (S
+    O)))))), (Var (S (S O)))))))), (App ((Abs (App ((App ((Var (S O)), (Abs
+    (Abs (Var (S O)))))), (Abs (Abs (Var (S O))))))), (App ((Abs (App ((Var
+    (S O)), (Abs (Abs (Var (S (S O)))))))), (Var (S (S O))))))))), (App ((Abs
+    (App ((App ((Var (S O)), (Abs (Abs (Var (S O)))))), (Abs (Abs (Var (S
+    O))))))), (App ((Abs (App ((Var (S O)), (Abs (Abs (Var (S O))))))), (Var
+    (S (S O)))))))))))))))), (Abs (Var (S O))))))))), (App ((App ((Abs (Abs
+    (Abs (App ((App ((Var (S O)), (Var (S (S (S O)))))), (Var (S (S
+    O)))))))), (App ((App ((Abs (Abs (App ((App ((Var (S (S O))), (Abs (Abs
+    (App ((App ((Var (S (S O))), (Abs (App ((App ((Var (S O)), (Abs (Abs (Abs
+    (Abs (App ((App ((Var (S (S O))), (App ((Abs (Abs (Abs (App ((Var (S (S
+    O))), (App ((App ((Var (S (S (S O)))), (Var (S (S O))))), (Var (S
+    O))))))))), (Var (S (S (S (S O))))))))), (Var (S (S (S (S (S
+    O)))))))))))))), (Abs (Abs (App ((App ((Var (S (S O))), (Abs (Abs (App
+    ((Var (S (S O))), (Var (S O)))))))), (Abs (Abs (Var (S O))))))))))))),
+    (Var (S (S (S O)))))))))), (Var (S O)))))), (App ((Abs (App ((Var (S O)),
+    (Abs (Abs (Var (S (S O)))))))), (Var (S (S O))))))), (App ((Abs (App
+    ((Var (S O)), (Abs (Abs (Var (S O))))))), (Var (S O)))))))), (App ((App
+    ((Abs (Abs (App ((App ((Var (S (S O))), (Abs (Abs (App ((App ((Var (S (S
+    O))), (Abs (App ((App ((Var (S O)), (Abs (Abs (Abs (Abs (App ((App ((Var
+    (S (S O))), (App ((Abs (Abs (Abs (App ((Var (S (S O))), (App ((App ((Var
+    (S (S (S O)))), (Var (S (S O))))), (Var (S O))))))))), (Var (S (S (S (S
+    O))))))))), (Var (S (S (S (S (S O)))))))))))))), (Abs (Abs (App ((App
+    ((Var (S (S O))), (Abs (Abs (App ((Var (S (S O))), (Var (S O)))))))),
+    (Abs (Abs (Var (S O))))))))))))), (Var (S (S (S O)))))))))), (Var (S
+    O)))))), (App ((Abs (App ((Var (S O)), (Abs (Abs (Var (S O))))))), (Var
+    (S (S O))))))), (App ((Abs (App ((Var (S O)), (Abs (Abs (Var (S (S
+    O)))))))), (Var (S O)))))))))))
+
+(** val lc_num_signed_mul_stumpfu : term **)
+
+let lc_num_signed_mul_stumpfu =
+  Abs (Abs (App ((App ((Abs (App ((Abs (App ((Var (S (S O))), (Abs (App ((App
+    ((Var (S (S O))), (Var (S (S O))))), (Var (S O)))))))), (Abs (App ((Var
+    (S (S O))), (Abs (App ((App ((Var (S (S O))), (Var (S (S O))))), (Var (S
+    O))))))))))), (Abs (Abs (App ((App ((App ((App ((Abs (App ((App ((Var (S
+    O)), (Abs (Abs (Abs (Abs (Var (S O)))))))), (Abs (Abs (Var (S (S
+    O)))))))), (App ((Abs (App ((Var (S O)), (Abs (Abs (Var (S (S O)))))))),
+    (Var (S O)))))), (Abs (Var (S (S O)))))), (Abs (App ((App ((App ((Abs
+    (App ((App ((Var (S O)), (Abs (Abs (Abs (Abs (Var (S O)))))))), (Abs (Abs
+    (Var (S (S O)))))))), (App ((Abs (App ((Var (S O)), (Abs (Abs (Var (S
+    O))))))), (Var (S (S O))))))), (Var (S (S O))))), (App ((Var (S (S (S
+    O)))), (App ((App ((Abs (Abs (Abs (App ((App ((Var (S O)), (Var (S (S (S
+    O)))))), (Var (S (S O)))))))), (App ((Abs (App ((App ((Var (S O)), (Abs
+    (Abs (Var (S O)))))), (Abs (Abs (Var (S O))))))), (App ((Abs (App ((Var
+    (S O)), (Abs (Abs (Var (S (S O)))))))), (Var (S (S O))))))))), (App ((Abs
+    (App ((App ((Var (S O)), (Abs (Abs (Var (S O)))))), (Abs (Abs (Var (S
+    O))))))), (App ((Abs (App ((Var (S O)), (Abs (Abs (Var (S O))))))), (Var
+    (S (S O)))))))))))))))), (Abs (Var (S O))))))))), (App ((App ((Abs (Abs
+    (Abs (App ((App ((Var (S O)), (Var (S (S (S O)))))), (Var (S (S
+    O)))))))), (App ((App ((Abs (Abs (App ((App ((Var (S (S O))), (Abs (Abs
+    (App ((App ((Var (S (S O))), (Abs (App ((App ((Var (S O)), (Abs (Abs (Abs
+    (Abs (App ((App ((Var (S (S O))), (App ((Abs (Abs (Abs (App ((Var (S (S
+    O))), (App ((App ((Var (S (S (S O)))), (Var (S (S O))))), (Var (S
+    O))))))))), (Var (S (S (S (S O))))))))), (Var (S (S (S (S (S
+    O)))))))))))))), (Abs (Abs (App ((App ((Var (S (S O))), (Abs (Abs (App
+    ((Var (S (S O))), (Var (S O)))))))), (Abs (Abs (Var (S O))))))))))))),
+    (Var (S (S (S O)))))))))), (Var (S O)))))), (App ((App ((Abs (Abs (App
+    ((App ((Var (S (S O))), (Abs (Abs (App ((App ((Var (S (S O))), (Abs (App
+    ((App ((Abs (Abs (App ((App ((Var (S (S O))), (Abs (Abs (App ((App ((Var
+    (S (S O))), (Abs (App ((App ((Var (S O)), (Abs (Abs (Abs (Abs (App ((App
+    ((Var (S (S O))), (App ((Abs (Abs (Abs (App ((Var (S (S O))), (App ((App
+    ((Var (S (S (S O)))), (Var (S (S O))))), (Var (S O))))))))), (Var (S (S
+    (S (S O))))))))), (Var (S (S (S (S (S O)))))))))))))), (Abs (Abs (App
+    ((App ((Var (S (S O))), (Abs (Abs (App ((Var (S (S O))), (Var (S
+    O)))))))), (Abs (Abs (Var (S O))))))))))))), (Var (S (S (S O)))))))))),
+    (Var (S O)))))), (Var (S (S (S (S O))))))), (Var (S O))))))), (Abs (Abs
+    (Var (S O)))))))))), (Abs (Abs (Var (S O)))))))), (App ((Abs (App ((Var
+    (S O)), (Abs (Abs (Var (S (S O)))))))), (Var (S (S O))))))), (App ((Abs
+    (App ((Var (S O)), (Abs (Abs (Var (S (S O)))))))), (Var (S O)))))))),
+    (App ((App ((Abs (Abs (App ((App ((Var (S (S O))), (Abs (Abs (App ((App
+    ((Var (S (S O))), (Abs (App ((App ((Abs (Abs (App ((App ((Var (S (S O))),
+    (Abs (Abs (App ((App ((Var (S (S O))), (Abs (App ((App ((Var (S O)), (Abs
+    (Abs (Abs (Abs (App ((App ((Var (S (S O))), (App ((Abs (Abs (Abs (App
+    ((Var (S (S O))), (App ((App ((Var (S (S (S O)))), (Var (S (S O))))),
+    (Var (S O))))))))), (Var (S (S (S (S O))))))))), (Var (S (S (S (S (S
+    O)))))))))))))), (Abs (Abs (App ((App ((Var (S (S O))), (Abs (Abs (App
+    ((Var (S (S O))), (Var (S O)))))))), (Abs (Abs (Var (S O))))))))))))),
+    (Var (S (S (S O)))))))))), (Var (S O)))))), (Var (S (S (S (S O))))))),
+    (Var (S O))))))), (Abs (Abs (Var (S O)))))))))), (Abs (Abs (Var (S
+    O)))))))), (App ((Abs (App ((Var (S O)), (Abs (Abs (Var (S O))))))), (Var
+    (S (S O))))))), (App ((Abs (App ((Var (S O)), (Abs (Abs (Var (S O))))))),
+    (Var (S O)))))))))), (App ((App ((Abs (Abs (App ((App ((Var (S (S O))),
+    (Abs (Abs (App ((App ((Var (S (S O))), (Abs (App ((App ((Var (S O)), (Abs
+    (Abs (Abs (Abs (App ((App ((Var (S (S O))), (App ((Abs (Abs (Abs (App
+    ((Var (S (S O))), (App ((App ((Var (S (S (S O)))), (Var (S (S O))))),
+    (Var (S O))))))))), (Var (S (S (S (S O))))))))), (Var (S (S (S (S (S
+    O)))))))))))))), (Abs (Abs (App ((App ((Var (S (S O))), (Abs (Abs (App
+    ((Var (S (S O))), (Var (S O)))))))), (Abs (Abs (Var (S O))))))))))))),
+    (Var (S (S (S O)))))))))), (Var (S O)))))), (App ((App ((Abs (Abs (App
+    ((App ((Var (S (S O))), (Abs (Abs (App ((App ((Var (S (S O))), (Abs (App
+    ((App ((Abs (Abs (App ((App ((Var (S (S O))), (Abs (Abs (App ((App ((Var
+    (S (S O))), (Abs (App ((App ((Var (S O)), (Abs (Abs (Abs (Abs (App ((App
+    ((Var (S (S O))), (App ((Abs (Abs (Abs (App ((Var (S (S O))), (App ((App
+    ((Var (S (S (S O)))), (Var (S (S O))))), (Var (S O))))))))), (Var (S (S
+    (S (S O))))))))), (Var (S (S (S (S (S O)))))))))))))), (Abs (Abs (App
+    ((App ((Var (S (S O))), (Abs (Abs (App ((Var (S (S O))), (Var (S
+    O)))))))), (Abs (Abs (Var (S O))))))))))))), (Var (S (S (S O)))))))))),
+    (Var (S O)))))), (Var (S (S (S (S O))))))), (Var (S O))))))), (Abs (Abs
+    (Var (S O)))))))))), (Abs (Abs (Var (S O)))))))), (App ((Abs (App ((Var
+    (S O)), (Abs (Abs (Var (S (S O)))))))), (Var (S (S O))))))), (App ((Abs
+    (App ((Var (S O)), (Abs (Abs (Var (S O))))))), (Var (S O)))))))), (App
+    ((App ((Abs (Abs (App ((App ((Var (S (S O))), (Abs (Abs (App ((App ((Var
+    (S (S O))), (Abs (App ((App ((Abs (Abs (App ((App ((Var (S (S O))), (Abs
+    (Abs (App ((App ((Var (S (S O))), (Abs (App ((App ((Var (S O)), (Abs (Abs
+    (Abs (Abs (App ((App ((Var (S (S O))), (App ((Abs (Abs (Abs (App ((Var (S
+    (S O))), (App ((App ((Var (S (S (S O)))), (Var (S (S O))))), (Var (S
+    O))))))))), (Var (S (S (S (S O))))))))), (Var (S (S (S (S (S
+    O)))))))))))))), (Abs (Abs (App ((App ((Var (S (S O))), (Abs (Abs (App
+    ((Var (S (S O))), (Var (S O)))))))), (Abs (Abs (Var (S O))))))))))))),
+    (Var (S (S (S O)))))))))), (Var (S O)))))), (Var (S (S (S (S O))))))),
+    (Var (S O))))))), (Abs (Abs (Var (S O)))))))))), (Abs (Abs (Var (S
+    O)))))))), (App ((Abs (App ((Var (S O)), (Abs (Abs (Var (S O))))))), (Var
+    (S (S O))))))), (App ((Abs (App ((Var (S O)), (Abs (Abs (Var (S (S
+    O)))))))), (Var (S O)))))))))))))
+
+(** val all_terms : term list **)
+
+let all_terms =
+  lc_combinators_I :: (lc_combinators_K :: (lc_combinators_S :: (lc_combinators_i :: (lc_combinators_B :: (lc_combinators_C :: (lc_combinators_W :: (lc_combinators_o :: (lc_combinators_O :: (lc_combinators_Y :: (lc_combinators_Z :: (lc_combinators_R :: (lc_combinators_T :: (lc_boolean_tru :: (lc_boolean_fls :: (lc_boolean_and :: (lc_boolean_or :: (lc_boolean_not :: (lc_boolean_xor :: (lc_boolean_nor :: (lc_boolean_xnor :: (lc_boolean_nand :: (lc_boolean_if_else :: (lc_boolean_imply :: (lc_pair_pair :: (lc_pair_fst :: (lc_pair_snd :: (lc_pair_uncurry :: (lc_pair_curry :: (lc_pair_swap :: (lc_option_none :: (lc_option_some :: (lc_option_is_none :: (lc_option_is_some :: (lc_option_map :: (lc_option_map_or :: (lc_option_unwrap_or :: (lc_option_and_then :: (lc_result_ok :: (lc_result_err :: (lc_result_is_ok :: (lc_result_is_err :: (lc_result_option_ok :: (lc_result_option_err :: (lc_result_unwrap_or :: (lc_result_map :: (lc_result_map_err :: (lc_result_and_then :: (lc_num_church_zero :: (lc_num_church_is_zero :: (lc_num_church_one :: (lc_num_church_succ :: (lc_num_church_pred :: (lc_num_church_add :: (lc_num_church_sub :: (lc_num_church_mul :: (lc_num_church_pow :: (lc_num_church_lt :: (lc_num_church_leq :: (lc_num_church_eq :: (lc_num_church_neq :: (lc_num_church_geq :: (lc_num_church_gt :: (lc_num_church_div :: (lc_num_church_quot :: (lc_num_church_rem :: (lc_num_church_fac :: (lc_num_church_min :: (lc_num_church_max :: (lc_num_church_shl :: (lc_num_church_shr :: (lc_num_church_is_even :: (lc_num_church_is_odd :: (lc_num_church_to_scott :: (lc_num_church_to_parigot :: (lc_num_church_to_stumpfu :: (lc_num_scott_zero :: (lc_num_scott_is_zero :: (lc_num_scott_one :: (lc_num_scott_succ :: (lc_num_scott_pred :: (lc_num_scott_add :: (lc_num_scott_mul :: (lc_num_scott_pow :: (lc_num_scott_to_church :: (lc_num_parigot_zero :: (lc_num_parigot_is_zero :: (lc_num_parigot_one :: (lc_num_parigot_succ :: (lc_num_parigot_pred :: (lc_num_parigot_add :: (lc_num_parigot_sub :: (lc_num_parigot_mul :: (lc_num_stumpfu_zero :: (lc_num_stumpfu_is_zero :: (lc_num_stumpfu_one :: (lc_num_stumpfu_succ :: (lc_num_stumpfu_pred :: (lc_num_stumpfu_add :: (lc_num_stumpfu_mul :: (lc_num_stumpfu_to_church :: (lc_num_stumpfu_to_scott :: (lc_num_stumpfu_to_parigot :: (lc_num_binary_b0 :: (lc_num_binary_b1 :: (lc_num_binary_zero :: (lc_num_binary_is_zero :: (lc_num_binary_one :: (lc_num_binary_succ :: (lc_num_binary_pred :: (lc_num_binary_lsb :: (lc_num_binary_shl0 :: (lc_num_binary_shl1 :: (lc_num_binary_strip :: (lc_num_signed_neg :: (lc_list_pair_nil :: (lc_list_pair_is_nil :: (lc_list_pair_cons :: (lc_list_pair_head :: (lc_list_pair_tail :: (lc_list_pair_length :: (lc_list_pair_index :: (lc_list_pair_reverse :: (lc_list_pair_list :: (lc_list_pair_append :: (lc_list_pair_map :: (lc_list_pair_foldl :: (lc_list_pair_foldr :: (lc_list_pair_filter :: (lc_list_pair_last :: (lc_list_pair_init :: (lc_list_pair_zip :: (lc_list_pair_zip_with :: (lc_list_pair_take :: (lc_list_pair_take_while :: (lc_list_pair_drop :: (lc_list_pair_drop_while :: (lc_list_pair_replicate :: (lc_list_church_nil :: (lc_list_church_is_nil :: (lc_list_church_cons :: (lc_list_church_head :: (lc_list_church_tail :: (lc_list_scott_nil :: (lc_list_scott_is_nil :: (lc_list_scott_cons :: (lc_list_scott_head :: (lc_list_scott_tail :: (lc_list_parigot_nil :: (lc_list_parigot_is_nil :: (lc_list_parigot_cons :: (lc_list_parigot_head :: (lc_list_parigot_tail :: (lc_num_signed_to_signed_church :: (lc_num_signed_simplify_church :: (lc_num_signed_modulus_church :: (lc_num_signed_add_church :: (lc_num_signed_sub_church :: (lc_num_signed_mul_church :: (lc_num_signed_to_signed_scott :: (lc_num_signed_simplify_scott :: (lc_num_signed_modulus_scott :: (lc_num_signed_add_scott :: (lc_num_signed_sub_scott :: (lc_num_signed_mul_scott :: (lc_num_signed_to_signed_parigot :: (lc_num_signed_simplify_parigot :: (lc_num_signed_modulus_parigot :: (lc_num_signed_add_parigot :: (lc_num_signed_sub_parigot :: (lc_num_signed_mul_parigot :: (lc_num_signed_to_signed_stumpfu :: (lc_num_signed_simplify_stumpfu :: (lc_num_signed_modulus_stumpfu :: (lc_num_signed_add_stumpfu :: (lc_num_signed_sub_stumpfu :: (lc_num_signed_mul_stumpfu :: []))))))))))))))))))))))))))))))))))))))))))))))))))))))))))))))))))))))))))))))))))))))))))))))))))))))))))))))))))))))))))))))))))))))))))))))))))))))))))))))))))))))))))))))))
